@@ -1,13 +1,13 @@
 (* FSProofs.v -- confinement of extraction on the filesystem model (property C03).
 
-   Main result [extract_confined_general]: when the destination is an existing real directory given
-   by a canonical path, every symbolic link already below it has a relative target without "..",
-   and every symbolic-link member of the archive has such a target too, then every effect of
-   extraction (created / truncated / removed / re-timed / re-moded path, resolved by the kernel
-   model) lies below the destination -- whether extraction completes or raises -- and the same
-   conditions hold again afterwards.  Archives without link members extracted into a directory
-   without links are the special case [extract_confined_nolinks].  *)
+   The extraction checks, before it touches an output, where that output really is (os.path.realpath, modelled
+   by FS.pyreal) against the real place of the destination taken at the start.  Main result
+   [extract_confined_all]: for every filesystem in which the destination resolves to a directory d, every
+   archive (any names, kinds, link targets, order, number) and both outcomes, every effect of extraction lies
+   at or below d.  The proof rests on [kernel_agrees]: whenever the kernel's path resolution (FS.walk, at most
+   40 links) succeeds, Python's realpath (no limit, loop detection through `seen`) names the same place.  *)
 From P7 Require Import Prelude FS ExtractFS.
+From Coq Require Import Lia.
 Open Scope Z_scope.
 
 (* ------------------------------------------------------------------ equality, prefixes *)
@@ -60,7 +60,6 @@ Proof. intros d p l [r Hr]. exists (r ++ l). rewrite Hr, app_assoc. reflexivity.
 
 (* ------------------------------------------------------------------ no ".." *)
 Definition nodd (l : list str) : Prop := Forall (fun c => is_dotdot c = false) l.
-Definition safe_target (t : ppath) : Prop := proot t = 0 /\ nodd (pparts t).
 
 Lemma nodd_app : forall a b, nodd (a ++ b) <-> nodd a /\ nodd b.
 Proof. intros; apply Forall_app. Qed.
@@ -72,7 +71,6 @@ Proof.
   change (removelast (x :: y :: l)) with (x :: removelast (y :: l)).
   inversion H as [|? ? H1 H2]; subst. constructor; [exact H1 | apply IH; exact H2].
 Qed.
-
 (* ------------------------------------------------------------------ lookup after updates *)
 Lemma lookup_raw_remove : forall f p q, lookup_raw (fs_remove f p) q = if rpath_eqb p q then None else lookup_raw f q.
 Proof.
@@ -99,374 +97,887 @@ Lemma lookup_remove : forall f p q, q <> [] ->
   lookup (fs_remove f p) q = if rpath_eqb p q then None else lookup f q.
 Proof. intros f p [|c q] H; [contradiction|]. unfold lookup. apply lookup_raw_remove. Qed.
 
-(* ------------------------------------------------------------------ the invariant *)
-Definition real_dir (f : fs) (d : rpath) : Prop := forall a b, d = a ++ b -> lookup f a = Some Dir.
-Definition links_safe (f : fs) (d : rpath) : Prop :=
-  forall q t, under d q -> lookup f q = Some (Link t) -> safe_target t.
-Definition no_links_under (f : fs) (d : rpath) : Prop :=
-  forall q t, under d q -> lookup f q <> Some (Link t).
-Definition effs_under (d : rpath) (l : list effect) : Prop := Forall (fun e => prefixb d (snd e) = true) l.
 
-Definition Inv (d : rpath) (s : st) : Prop :=
-  real_dir (s_fs s) d /\ links_safe (s_fs s) d /\ effs_under d (s_eff s).
+(* ------------------------------------------------------------------ the kernel walk and realpath *)
+Definition loc_of (r : rres) : option rpath :=
+  match r with RFound q _ => Some q | RMissing q => Some q | RErr _ => None end.
 
-Lemma no_links_safe : forall f d, no_links_under f d -> links_safe f d.
-Proof. intros f d H q t Hu Hl. exfalso. exact (H q t Hu Hl). Qed.
+Lemma removelast_snoc : forall (A : Type) (l : list A) c, removelast (l ++ [c]) = l.
+Proof. intros. rewrite removelast_app by discriminate. simpl. apply app_nil_r. Qed.
 
-(* setting a node that is not a directory at the moment, or creating a missing one, keeps the chain
-   of directories down to d; it keeps links safe when the new node is not an unsafe link *)
-Lemma real_dir_set : forall f d q n,
-  real_dir f d -> lookup f q <> Some Dir -> real_dir (fs_set f q n) d.
+Section Agree.
+Variable f : fs.
+
+Lemma walk_links_le : forall fuel follow links cur todo r l,
+  walk fuel f follow links cur todo = (r, l) -> (l <= links)%nat.
 Proof.
-  intros f d q n H Hq a b Hab. destruct a as [|c a]; [reflexivity|].
-  rewrite lookup_set by discriminate. destruct (rpath_eqb q (c :: a)) eqn:E.
-  - apply rpath_eqb_eq in E; subst q. exfalso. apply Hq. apply (H _ _ Hab).
-  - apply (H _ _ Hab).
+  induction fuel as [|fuel IH]; intros follow links cur todo r l H; simpl in H.
+  - inversion H; subst; lia.
+  - destruct todo as [|c rest]; [inversion H; subst; lia|].
+    destruct (is_dotdot c); [eapply IH; eauto|].
+    destruct (lookup f (cur ++ [c])) as [[|dd|t]|].
+    + eapply IH; eauto.
+    + inversion H; subst; lia.
+    + assert (G : forall fl, match links with
+                  | O => (RErr XLoop, O)
+                  | S links' =>
+                    match rest with
+                    | [] => walk fuel f true links' (if p_is_abs t then [] else cur) (pparts t)
+                    | _ :: _ =>
+                      match walk fuel f true links' (if p_is_abs t then [] else cur) (pparts t) with
+                      | (RFound q Dir, l2) => walk fuel f fl l2 q rest
+                      | (RFound _ _, l2) => (RErr XNotDir, l2)
+                      | (RMissing _, l2) => (RErr XNoEnt, l2)
+                      | (RErr x, l2) => (RErr x, l2)
+                      end
+                    end
+                  end = (r, l) -> (l <= links)%nat).
+      { intros fl G. destruct links as [|links']; [inversion G; subst; lia|].
+        destruct rest as [|c2 rest].
+        - apply IH in G. lia.
+        - destruct (walk fuel f true links' (if p_is_abs t then [] else cur) (pparts t)) as [r1 l2] eqn:E1.
+          apply IH in E1.
+          destruct r1 as [q [|dd|t2]|q|x]; try (inversion G; subst; lia).
+          apply IH in G. lia. }
+      destruct rest as [|c2 rest]; destruct follow.
+      * apply (G true H).
+      * inversion H; subst; lia.
+      * apply (G true H).
+      * apply (G false H).
+    + inversion H; subst; lia.
 Qed.
 
-Lemma real_dir_set_dir : forall f d q, real_dir f d -> real_dir (fs_set f q Dir) d.
+Definition follow_link (fuel : nat) (follow : bool) (links : nat) (cur : rpath) (t : ppath) (rest : list str) : rres * nat :=
+  match links with
+  | O => (RErr XLoop, O)
+  | S links' =>
+    match rest with
+    | [] => walk fuel f true links' (if p_is_abs t then [] else cur) (pparts t)
+    | _ :: _ =>
+      match walk fuel f true links' (if p_is_abs t then [] else cur) (pparts t) with
+      | (RFound q Dir, l2) => walk fuel f follow l2 q rest
+      | (RFound _ _, l2) => (RErr XNotDir, l2)
+      | (RMissing _, l2) => (RErr XNoEnt, l2)
+      | (RErr x, l2) => (RErr x, l2)
+      end
+    end
+  end.
+
+Lemma walk_S_link : forall fuel follow links cur c rest t,
+  is_dotdot c = false -> lookup f (cur ++ [c]) = Some (Link t) ->
+  walk (S fuel) f follow links cur (c :: rest) =
+    match rest, follow with
+    | [], false => (RFound (cur ++ [c]) (Link t), links)
+    | _, _ => follow_link fuel follow links cur t rest
+    end.
 Proof.
-  intros f d q H a b Hab. destruct a as [|c a]; [reflexivity|].
-  rewrite lookup_set by discriminate. destruct (rpath_eqb q (c :: a)); auto. apply (H _ _ Hab).
+  intros fuel follow links cur c rest t Hc Hl. simpl. rewrite Hc, Hl.
+  destruct rest; destruct follow; reflexivity.
 Qed.
 
-Lemma real_dir_remove : forall f d q,
-  real_dir f d -> lookup f q <> Some Dir -> real_dir (fs_remove f q) d.
+(* a non-final link: the nested walk has to end in a directory *)
+Lemma follow_link_mid : forall fuel follow links cur t c2 rest r l q,
+  follow_link fuel follow links cur t (c2 :: rest) = (r, l) -> loc_of r = Some q ->
+  exists links' q1 l2, links = S links' /\
+    walk fuel f true links' (if p_is_abs t then [] else cur) (pparts t) = (RFound q1 Dir, l2) /\
+    walk fuel f follow l2 q1 (c2 :: rest) = (r, l).
 Proof.
-  intros f d q H Hq a b Hab. destruct a as [|c a]; [reflexivity|].
-  rewrite lookup_remove by discriminate. destruct (rpath_eqb q (c :: a)) eqn:E.
-  - apply rpath_eqb_eq in E; subst q. exfalso. apply Hq. apply (H _ _ Hab).
-  - apply (H _ _ Hab).
+  intros fuel follow links cur t c2 rest r l q H Hq. unfold follow_link in H.
+  destruct links as [|links']; [inversion H; subst; discriminate|].
+  destruct (walk fuel f true links' (if p_is_abs t then [] else cur) (pparts t)) as [r1 l2] eqn:E1.
+  destruct r1 as [q1 [|dd|t2]|q1|x]; try (inversion H; subst; discriminate).
+  exists links', q1, l2. auto.
 Qed.
 
-Lemma links_safe_set : forall f d q n,
-  links_safe f d -> (forall t, n = Link t -> safe_target t) -> links_safe (fs_set f q n) d.
+Lemma pyreal_mono : forall fuel ip ab cur todo r,
+  pyreal fuel f ip ab cur todo = r -> r <> PFuel ->
+  forall fuel', (fuel <= fuel')%nat -> pyreal fuel' f ip ab cur todo = r.
 Proof.
-  intros f d q n H Hn q' t Hu Hl. destruct q' as [|c q']; [discriminate|].
-  rewrite lookup_set in Hl by discriminate. destruct (rpath_eqb q (c :: q')).
-  - inversion Hl; subst. apply Hn; reflexivity.
-  - apply (H _ _ Hu Hl).
+  induction fuel as [|fuel IH]; intros ip ab cur todo r H Hr fuel' Hle; [simpl in H; congruence|].
+  destruct fuel' as [|fuel']; [lia|]. assert (Hle' : (fuel <= fuel')%nat) by lia.
+  simpl in H |- *. destruct todo as [|c rest]; [exact H|].
+  destruct (is_dotdot c); [apply IH; auto|].
+  destruct (lookup f (cur ++ [c])) as [[|dd|t]|]; try (apply IH; auto; fail).
+  destruct (mem_key ab (cur ++ [c]) ip); [exact H|].
+  destruct (pyreal fuel f ((ab, cur ++ [c]) :: ip) (ab || p_is_abs t) (if p_is_abs t then [] else cur) (pparts t))
+    as [ab2 q|l0 r0|] eqn:E1.
+  - rewrite (IH _ _ _ _ _ E1) by (auto; discriminate). apply IH; auto.
+  - rewrite (IH _ _ _ _ _ E1) by (auto; discriminate). exact H.
+  - congruence.
 Qed.
 
-Lemma links_safe_remove : forall f d q, links_safe f d -> links_safe (fs_remove f q) d.
+Lemma pyreal_same : forall fa fb ip ab cur todo ra rb,
+  pyreal fa f ip ab cur todo = ra -> ra <> PFuel -> pyreal fb f ip ab cur todo = rb -> rb <> PFuel -> ra = rb.
 Proof.
-  intros f d q H q' t Hu Hl. destruct q' as [|c q']; [discriminate|].
-  rewrite lookup_remove in Hl by discriminate. destruct (rpath_eqb q (c :: q')); [discriminate|].
-  apply (H _ _ Hu Hl).
+  intros fa fb ip ab cur todo ra rb Ha Hra Hb Hrb.
+  destruct (Nat.le_ge_cases fa fb) as [L|L].
+  - rewrite <- (pyreal_mono _ _ _ _ _ _ Ha Hra fb L). exact Hb.
+  - rewrite <- Ha. apply (pyreal_mono _ _ _ _ _ _ Hb Hrb fa L).
 Qed.
 
-(* ------------------------------------------------------------------ the kernel walk stays below d *)
-Section Walk.
-Variables (f : fs) (d : rpath).
-Hypothesis Hreal : real_dir f d.
-Hypothesis Hsafe : links_safe f d.
-Hypothesis Hd : nodd d.
+Lemma pyreal_nil : forall n ip ab cur, pyreal (S n) f ip ab cur [] = POk ab cur.
+Proof. reflexivity. Qed.
 
-Definition res_ok (r : rres) : Prop :=
+Lemma pyreal_dd : forall n ip ab cur c rest, is_dotdot c = true ->
+  pyreal (S n) f ip ab cur (c :: rest) = pyreal n f ip ab (removelast cur) rest.
+Proof. intros. simpl. rewrite H. reflexivity. Qed.
+
+Lemma pyreal_plain : forall n ip ab cur c rest, is_dotdot c = false ->
+  (forall t, lookup f (cur ++ [c]) <> Some (Link t)) ->
+  pyreal (S n) f ip ab cur (c :: rest) = pyreal n f ip ab (cur ++ [c]) rest.
+Proof.
+  intros n ip ab cur c rest Hc Hl. simpl. rewrite Hc.
+  destruct (lookup f (cur ++ [c])) as [[|dd|t]|]; try reflexivity. exfalso. apply (Hl t). reflexivity.
+Qed.
+
+Lemma pyreal_link : forall n ip ab cur c rest t, is_dotdot c = false -> lookup f (cur ++ [c]) = Some (Link t) ->
+  pyreal (S n) f ip ab cur (c :: rest) =
+    if mem_key ab (cur ++ [c]) ip then PLoop (cur ++ [c]) rest
+    else match pyreal n f ((ab, cur ++ [c]) :: ip) (ab || p_is_abs t) (if p_is_abs t then [] else cur) (pparts t) with
+         | POk ab2 q => pyreal n f ip ab2 q rest
+         | PLoop l r => PLoop l (r ++ rest)
+         | PFuel => PFuel
+         end.
+Proof. intros. simpl. rewrite H, H0. reflexivity. Qed.
+
+(* the link at l is met while it is being resolved, and the kernel, with k < j links left, resolves its target *)
+Definition reenter (ip : list (bool * rpath)) (j : nat) (l : rpath) : Prop :=
+  exists abL cur c t fk k r l2 q,
+    l = cur ++ [c] /\ mem_key abL l ip = true /\ lookup f l = Some (Link t) /\ (k < j)%nat /\
+    walk fk f true k (if p_is_abs t then [] else cur) (pparts t) = (r, l2) /\ loc_of r = Some q.
+
+(* with k links allowed the kernel resolves the target of the link at cur/c: then realpath, resolving that target,
+   does not report that it met this link again *)
+Definition NoSelf (k : nat) : Prop :=
+  forall fk fp ip ab0 cur c t r l q rest,
+    lookup f (cur ++ [c]) = Some (Link t) ->
+    walk fk f true k (if p_is_abs t then [] else cur) (pparts t) = (r, l) -> loc_of r = Some q ->
+    pyreal fp f ip ab0 (if p_is_abs t then [] else cur) (pparts t) <> PLoop (cur ++ [c]) rest.
+
+Definition Trace (k : nat) : Prop :=
+  forall j, (j <= k)%nat -> forall fk ip ab cur todo r l q,
+    walk fk f true j cur todo = (r, l) -> loc_of r = Some q ->
+    match pyreal (S fk) f ip ab cur todo with
+    | POk _ q' => q' = q
+    | PLoop l0 _ => reenter ip j l0
+    | PFuel => False
+    end.
+
+Lemma reenter_le : forall ip j j' l0, reenter ip j l0 -> (j <= j')%nat -> reenter ip j' l0.
+Proof.
+  intros ip j j' l0 (abL & cur & c & t & fk & k & r & l2 & q & H1 & H2 & H3 & H4 & H4' & H5) Hle.
+  exists abL, cur, c, t, fk, k, r, l2, q. 
+  split; [exact H1|]. split; [exact H2|]. split; [exact H3|]. split; [lia|]. split; [exact H4'|exact H5].
+Qed.
+
+Lemma trace_step : forall k, (forall k', (k' < k)%nat -> NoSelf k') -> Trace k.
+Proof.
+  intros k HNS j Hj fk. revert j Hj. induction fk as [|fk IH]; intros j Hj ip ab cur todo r l q H Hq.
+  { simpl in H. inversion H; subst. discriminate. }
+  destruct todo as [|c rest].
+  { simpl in H. inversion H; subst. simpl in Hq. inversion Hq; subst. rewrite pyreal_nil. reflexivity. }
+  destruct (is_dotdot c) eqn:Hc.
+  { rewrite pyreal_dd by exact Hc. simpl in H. rewrite Hc in H. apply (IH _ Hj _ _ _ _ _ _ _ H Hq). }
+  destruct (lookup f (cur ++ [c])) as [n|] eqn:Hl.
+  2:{ rewrite pyreal_plain by (auto; intros t; rewrite Hl; discriminate).
+      simpl in H. rewrite Hc, Hl in H. destruct rest; inversion H; subst; [|discriminate].
+      simpl in Hq. inversion Hq; subst. rewrite pyreal_nil. reflexivity. }
+  destruct n as [|dd|t].
+  { rewrite pyreal_plain by (auto; intros t; rewrite Hl; discriminate).
+    simpl in H. rewrite Hc, Hl in H. apply (IH _ Hj _ _ _ _ _ _ _ H Hq). }
+  { rewrite pyreal_plain by (auto; intros t; rewrite Hl; discriminate).
+    simpl in H. rewrite Hc, Hl in H. destruct rest; inversion H; subst; [|discriminate].
+    simpl in Hq. inversion Hq; subst. rewrite pyreal_nil. reflexivity. }
+  (* a link *)
+  rewrite (walk_S_link fk true j cur c rest t Hc Hl) in H.
+  assert (H' : follow_link fk true j cur t rest = (r, l)) by (destruct rest; exact H). clear H.
+  rewrite (pyreal_link (S fk) ip ab cur c rest t Hc Hl).
+  destruct j as [|j']; [unfold follow_link in H'; inversion H'; subst; discriminate|].
+  (* the kernel's nested walk over the target succeeds *)
+  assert (N : exists r1 l2 q1, walk fk f true j' (if p_is_abs t then [] else cur) (pparts t) = (r1, l2) /\ loc_of r1 = Some q1 /\
+            match rest with
+            | [] => (r1, l2) = (r, l)
+            | _ => r1 = RFound q1 Dir /\ walk fk f true l2 q1 rest = (r, l)
+            end).
+  { destruct rest as [|c2 rest].
+    - unfold follow_link in H'.  exists r, l, q. auto.
+    - destruct (follow_link_mid _ _ _ _ _ _ _ _ _ _ H' Hq) as (links' & q1 & l2 & E0 & E1 & E2).
+      inversion E0; subst links'. exists (RFound q1 Dir), l2, q1.  auto. }
+  destruct N as (r1 & l2 & q1 & N1 & N2 & N3).
+  destruct (mem_key ab (cur ++ [c]) ip) eqn:Hm.
+  { exists ab, cur, c, t, fk, j', r1, l2, q1.  repeat (split; [auto; lia|]). exact N2. }
+  assert (Hj' : (j' <= k)%nat) by lia.
+  pose proof (IH j' Hj' ((ab, cur ++ [c]) :: ip) (ab || p_is_abs t) (if p_is_abs t then [] else cur) (pparts t) r1 l2 q1 N1 N2) as T1.
+  destruct (pyreal (S fk) f ((ab, cur ++ [c]) :: ip) (ab || p_is_abs t) (if p_is_abs t then [] else cur) (pparts t)) as [ab2 q1'|l0 r0|] eqn:E1;
+    [|clear IH|contradiction].
+  - subst q1'. destruct rest as [|c2 rest].
+    + inversion N3; subst. rewrite pyreal_nil. rewrite N2 in Hq. inversion Hq. reflexivity.
+    + destruct N3 as [N3 N4]. pose proof (walk_links_le _ _ _ _ _ _ _ N1) as Hl2.
+      assert (Hl2k : (l2 <= k)%nat) by lia.
+      pose proof (IH l2 Hl2k ip ab2 q1 (c2 :: rest) r l q N4 Hq) as T2.
+      destruct (pyreal (S fk) f ip ab2 q1 (c2 :: rest)); auto.
+      apply (reenter_le _ _ _ _ T2). lia.
+  - destruct T1 as (abL & cur' & c' & t' & fk' & k' & r' & l2' & q' & W1 & W2 & W3 & W4 & W5 & W6).
+    simpl in W2. destruct (mem_key abL l0 ip) eqn:Hm2.
+    + exists abL, cur', c', t', fk', k', r', l2', q'.
+      split; [exact W1|]. split; [exact Hm2|]. split; [exact W3|]. split; [lia|]. split; [exact W5|exact W6].
+    + rewrite orb_false_r in W2. apply andb_true_iff in W2 as [_ W2]. apply rpath_eqb_eq in W2.
+      exfalso. subst l0.
+      match goal with HH : _ ++ [_] = _ ++ [_] |- _ => apply app_inj_tail in HH as [Wc Wcc] end. subst cur' c'.
+      rewrite Hl in W3. inversion W3; subst t'.
+      assert (Hk' : (k' < k)%nat) by lia.
+      apply (HNS k' Hk' fk' (S fk) ((ab, cur ++ [c]) :: ip) (ab || p_is_abs t) cur c t r' l2' q' r0 Hl W5 W6).
+       exact E1.
+Qed.
+
+Lemma noself_all : forall k, NoSelf k.
+Proof.
+  intros k. induction k as [k IHk] using lt_wf_ind.
+  intros fk fp ip ab0 cur c t r l q rest Hl Hw Hq E.
+  pose proof (trace_step k IHk k (le_n k) fk ip ab0 _ _ r l q Hw Hq) as T.
+  destruct (pyreal (S fk) f ip ab0 (if p_is_abs t then [] else cur) (pparts t)) as [ab2 q2|l0 r0|] eqn:E2;
+    [|clear Hw Hq|contradiction].
+  - assert (X : PLoop (cur ++ [c]) rest = POk ab2 q2) by (eapply pyreal_same; eauto; discriminate). discriminate.
+  - assert (X : PLoop (cur ++ [c]) rest = PLoop l0 r0) by (eapply pyreal_same; eauto; discriminate).
+    inversion X; subst l0 r0; clear X.
+    destruct T as (abL & cur' & c' & t' & fk' & k' & r' & l2' & q' & W1 & W2 & W3 & W4 & W5 & W6).
+    apply app_inj_tail in W1 as [Wc Wcc]. subst cur' c'. rewrite Hl in W3. inversion W3; subst t'.
+    apply (IHk k' W4 fk' fp ip ab0 cur c t r' l2' q' rest Hl W5 W6 E).
+Qed.
+
+(* whenever the kernel resolves a path (following a final link), os.path.realpath names the same place *)
+Theorem kernel_agrees : forall fk j ab cur todo r l q,
+  walk fk f true j cur todo = (r, l) -> loc_of r = Some q ->
+  exists ab', pyreal (S fk) f [] ab cur todo = POk ab' q.
+Proof.
+  intros fk j ab cur todo r l q H Hq.
+  pose proof (trace_step j (fun k' _ => noself_all k') j (le_n j) fk [] ab cur todo r l q H Hq) as T.
+  destruct (pyreal (S fk) f [] ab cur todo) as [ab2 q2|l0 r0|]; [|exfalso|contradiction].
+  - subst q2. exists ab2. reflexivity.
+  - destruct T as (abL & cur' & c' & t' & fk' & k' & r' & l2' & q' & W1 & W2 & W3). simpl in W2. discriminate.
+Qed.
+
+End Agree.
+
+(* ------------------------------------------------------------------ well-formed trees *)
+(* whatever has a name is in a directory *)
+Definition wf (f : fs) : Prop := forall q c, lookup f (q ++ [c]) <> None -> lookup f q = Some Dir.
+
+Lemma wf_parent_dir : forall f cur, wf f -> lookup f cur = Some Dir -> lookup f (removelast cur) = Some Dir.
+Proof.
+  intros f cur Hwf Hc. destruct cur as [|x cur] using rev_ind; [reflexivity|].
+  rewrite removelast_snoc. apply (Hwf _ x). rewrite Hc. discriminate.
+Qed.
+
+Lemma wf_below_missing : forall f q, wf f -> lookup f q = None -> forall x, x <> [] -> lookup f (q ++ x) = None.
+Proof.
+  intros f q Hwf Hq x. induction x as [|c x IH] using rev_ind; intro Hx; [contradiction|].
+  destruct (lookup f (q ++ x ++ [c])) eqn:E; [|reflexivity]. exfalso.
+  assert (D : lookup f (q ++ x) = Some Dir).
+  { apply (Hwf _ c). rewrite <- app_assoc. rewrite E. discriminate. }
+  destruct x as [|y x]; [rewrite app_nil_r in D; congruence|].
+  rewrite IH in D by discriminate. discriminate.
+Qed.
+
+Section WalkFacts.
+Variable f : fs.
+Hypothesis Hwf : wf f.
+
+Definition res_sound (r : rres) : Prop :=
   match r with
-  | RFound q n => under d q /\ lookup f q = Some n
-  | RMissing q => under d q /\ lookup f q = None
+  | RFound q n => lookup f q = Some n
+  | RMissing q => lookup f q = None /\ exists p c, q = p ++ [c] /\ lookup f p = Some Dir
   | RErr _ => True
   end.
 
-Lemma walk_inside : forall fuel follow links cur todo,
-  nodd todo -> under d cur -> lookup f cur = Some Dir ->
-  res_ok (walk fuel f follow links cur todo).
+Lemma walk_sound : forall fk ff k cur todo r l,
+  lookup f cur = Some Dir -> walk fk f ff k cur todo = (r, l) -> res_sound r.
 Proof.
-  induction fuel as [|fuel IH]; intros follow links cur todo Hn Hu Hc; simpl; [exact I|].
-  destruct todo as [|c rest]; [simpl; auto|].
-  inversion Hn as [|? ? Hc0 Hrest]; subst. rewrite Hc0.
-  assert (Hh : under d (cur ++ [c])) by (apply under_snoc; exact Hu).
-  destruct (lookup f (cur ++ [c])) as [[| dd | t]|] eqn:L.
-  - apply IH; auto.
-  - destruct rest; simpl; auto.
-  - assert (Hs : safe_target t) by (apply (Hsafe _ _ Hh L)). destruct Hs as [Hr Hp].
-    assert (Habs : p_is_abs t = false) by (unfold p_is_abs; rewrite Hr; reflexivity).
-    destruct rest as [|c2 rest]; destruct follow; simpl; auto;
-      (destruct links as [|links]; [exact I|]; rewrite Habs; apply IH; auto; apply nodd_app; split; auto).
-  - destruct rest; simpl; auto.
+  induction fk as [|fk IH]; intros ff k cur todo r l Hc H; [simpl in H; inversion H; exact I|].
+  destruct todo as [|c rest]; [simpl in H; inversion H; subst; exact Hc|].
+  destruct (is_dotdot c) eqn:Ec.
+  { simpl in H. rewrite Ec in H. apply (IH _ _ _ _ _ _ (wf_parent_dir _ _ Hwf Hc) H). }
+  destruct (lookup f (cur ++ [c])) as [[|dd|t]|] eqn:El.
+  - simpl in H. rewrite Ec, El in H. apply (IH _ _ _ _ _ _ El H).
+  - simpl in H. rewrite Ec, El in H. destruct rest; inversion H; subst; simpl; auto.
+  - rewrite (walk_S_link f fk ff k cur c rest t Ec El) in H.
+    assert (G : follow_link f fk ff k cur t rest = (r, l) -> res_sound r).
+    { clear H. intro H. unfold follow_link in H. destruct k as [|k']; [inversion H; exact I|].
+      assert (Hs : lookup f (if p_is_abs t then [] else cur) = Some Dir) by (destruct (p_is_abs t); auto).
+      destruct rest as [|c2 rest]; [apply (IH _ _ _ _ _ _ Hs H)|].
+      destruct (walk fk f true k' (if p_is_abs t then [] else cur) (pparts t)) as [r1 l2] eqn:E1.
+      pose proof (IH _ _ _ _ _ _ Hs E1) as S1.
+      destruct r1 as [q1 [|dd|t2]|q1|x]; try (inversion H; exact I).
+      apply (IH _ _ _ _ _ _ S1 H). }
+    destruct rest as [|c2 rest]; destruct ff; auto. inversion H; subst. exact El.
+  - simpl in H. rewrite Ec, El in H. destruct rest; inversion H; subst; simpl; auto.
+    split; [exact El|]. exists cur, c. auto.
 Qed.
 
-Lemma walk_down : forall d2 fuel follow links cur r,
-  d = cur ++ d2 -> nodd (d2 ++ r) ->
-  res_ok (walk fuel f follow links cur (d2 ++ r)).
+(* the last name is not followed: where it is missing it is missing for the following walk too *)
+Lemma walk_missing_follow : forall fk k cur todo q l,
+  walk fk f false k cur todo = (RMissing q, l) -> walk fk f true k cur todo = (RMissing q, l).
 Proof.
-  induction d2 as [|c d2 IH]; intros fuel follow links cur r Hdc Hn.
-  - simpl. apply walk_inside; auto.
-    + exists []. rewrite Hdc, !app_nil_r. reflexivity.
-    + apply (Hreal cur []). exact Hdc.
-  - destruct fuel as [|fuel]; [exact I|]. simpl.
-    inversion Hn as [|? ? Hc0 Hrest]; subst. rewrite Hc0.
-    assert (L : lookup f (cur ++ [c]) = Some Dir).
-    { apply (Hreal (cur ++ [c]) d2). rewrite <- app_assoc. exact Hdc. }
-    rewrite L. apply IH; auto. rewrite <- app_assoc. exact Hdc.
+  induction fk as [|fk IH]; intros k cur todo q l H; [simpl in H; inversion H|].
+  destruct todo as [|c rest]; [simpl in H; inversion H|].
+  destruct (is_dotdot c) eqn:Ec.
+  { simpl in H |- *. rewrite Ec in *. apply IH; exact H. }
+  destruct (lookup f (cur ++ [c])) as [[|dd|t]|] eqn:El.
+  - simpl in H |- *. rewrite Ec, El in *. apply IH; exact H.
+  - simpl in H |- *. rewrite Ec, El in *. exact H.
+  - rewrite (walk_S_link f fk false k cur c rest t Ec El) in H. rewrite (walk_S_link f fk true k cur c rest t Ec El).
+    destruct rest as [|c2 rest]; [inversion H|].
+    unfold follow_link in *. destruct k as [|k']; [exact H|].
+    destruct (walk fk f true k' (if p_is_abs t then [] else cur) (pparts t)) as [r1 l2].
+    destruct r1 as [q1 [|dd|t2]|q1|x]; try exact H. apply IH; exact H.
+  - simpl in H |- *. rewrite Ec, El in *. exact H.
 Qed.
 
-Lemma walk_above : forall todo fuel follow links cur r,
-  d = cur ++ todo ++ r ->
-  walk fuel f follow links cur todo = RFound (cur ++ todo) Dir \/
-  exists x, walk fuel f follow links cur todo = RErr x.
+(* a path whose last name c is not followed: the directory holding it is what the walk over the rest finds *)
+Lemma walk_snoc : forall fk k cur A c r l q,
+  is_dotdot c = false -> walk fk f false k cur (A ++ [c]) = (r, l) -> loc_of r = Some q ->
+  exists qP lP, walk fk f true k cur A = (RFound qP Dir, lP) /\ q = qP ++ [c].
 Proof.
-  induction todo as [|c todo IH]; intros fuel follow links cur r Hdc.
-  - destruct fuel; simpl; [right; eexists; reflexivity|]. left. rewrite app_nil_r. reflexivity.
-  - destruct fuel as [|fuel]; simpl; [right; eexists; reflexivity|].
-    assert (Hc0 : is_dotdot c = false).
-    { unfold nodd in Hd. rewrite Hdc in Hd. apply Forall_app in Hd as [_ Hd]. inversion Hd; auto. }
-    rewrite Hc0.
-    assert (L : lookup f (cur ++ [c]) = Some Dir).
-    { apply (Hreal (cur ++ [c]) (todo ++ r)). rewrite Hdc, <- app_assoc. reflexivity. }
-    rewrite L.
-    replace (cur ++ c :: todo) with ((cur ++ [c]) ++ todo) by (rewrite <- app_assoc; reflexivity).
-    apply (IH fuel follow links (cur ++ [c]) r). rewrite Hdc, <- app_assoc. reflexivity.
+  induction fk as [|fk IH]; intros k cur A c r l q Hc H Hq; [simpl in H; inversion H; subst; discriminate|].
+  destruct A as [|a A].
+  - exists cur, k. split; [reflexivity|]. simpl in H. rewrite Hc in H.
+    destruct (lookup f (cur ++ [c])) as [[|dd|t]|] eqn:El.
+    + destruct fk; simpl in H; inversion H; subst; [discriminate|]. simpl in Hq. congruence.
+    + inversion H; subst. simpl in Hq. congruence.
+    + inversion H; subst. simpl in Hq. congruence.
+    + inversion H; subst. simpl in Hq. congruence.
+  - change ((a :: A) ++ [c]) with (a :: (A ++ [c])) in H.
+    destruct (is_dotdot a) eqn:Ea.
+    { simpl in H |- *. rewrite Ea in *. apply (IH _ _ _ _ _ _ _ Hc H Hq). }
+    destruct (lookup f (cur ++ [a])) as [[|dd|t]|] eqn:El.
+    + simpl in H |- *. rewrite Ea, El in *. apply (IH _ _ _ _ _ _ _ Hc H Hq).
+    + simpl in H. rewrite Ea, El in H. destruct (A ++ [c]) eqn:EA; [destruct A; discriminate|]. inversion H; subst; discriminate.
+    + rewrite (walk_S_link f fk false k cur a (A ++ [c]) t Ea El) in H.
+      rewrite (walk_S_link f fk true k cur a A t Ea El).
+      destruct (A ++ [c]) as [|c2 rest] eqn:EA; [destruct A; discriminate|].
+      destruct (follow_link_mid f _ _ _ _ _ _ _ _ _ _ H Hq) as (k' & q1 & l2 & E0 & E1 & E2). subst k.
+      rewrite <- EA in E2. destruct (IH _ _ _ _ _ _ _ Hc E2 Hq) as (qP & lP & P1 & P2).
+      exists qP, lP. split; [|exact P2].
+      destruct A as [|a2 A].
+      * unfold follow_link. rewrite E1. destruct fk; simpl in P1; inversion P1; subst. reflexivity.
+      * unfold follow_link. rewrite E1. exact P1.
+    + simpl in H. rewrite Ea, El in H. destruct (A ++ [c]) eqn:EA; [destruct A; discriminate|]. inversion H; subst; discriminate.
 Qed.
 
-(* paths the extraction hands to system calls *)
-Variable cwd : rpath.
-Definition start (p : ppath) : rpath := if p_is_abs p then [] else cwd.
-
-(* lexically at or below d: relative from a directory below d, or leading down through d *)
-Definition good_in (p : ppath) : Prop :=
-  nodd (pparts p) /\
-  ((under d (start p) /\ lookup f (start p) = Some Dir) \/
-   (exists d2 r, d = start p ++ d2 /\ pparts p = d2 ++ r)).
-(* lexically at or above d *)
-Definition good_above (p : ppath) : Prop := exists r, d = start p ++ pparts p ++ r.
-Definition good (p : ppath) : Prop := good_in p \/ good_above p.
-
-Lemma resolve_in : forall follow p, good_in p -> res_ok (resolve f cwd follow p).
+(* after a name q0 has been removed, a walk that still succeeds finds what it found before, or finds q0 missing *)
+Lemma walk_remove : forall q0 fk ff k cur todo r l q,
+  walk fk (fs_remove f q0) ff k cur todo = (r, l) -> loc_of r = Some q ->
+  r = RMissing q0 \/ walk fk f ff k cur todo = (r, l).
 Proof.
-  intros follow p [Hn [[Hu Hl] | [d2 [r [Hd2 Hp]]]]]; unfold resolve; fold (start p).
-  - apply walk_inside; auto.
-  - rewrite Hp. apply walk_down; auto. rewrite <- Hp. exact Hn.
+  intros q0. induction fk as [|fk IH]; intros ff k cur todo r l q H Hq; [simpl in H; inversion H; subst; discriminate|].
+  destruct todo as [|c rest]; [right; exact H|].
+  destruct (is_dotdot c) eqn:Ec.
+  { simpl in H |- *. rewrite Ec in *. apply (IH _ _ _ _ _ _ _ H Hq). }
+  assert (Hne : cur ++ [c] <> []) by (destruct cur; discriminate).
+  pose proof (lookup_remove f q0 (cur ++ [c]) Hne) as LR.
+  destruct (rpath_eqb q0 (cur ++ [c])) eqn:Eq.
+  { apply rpath_eqb_eq in Eq. simpl in H. rewrite Ec, LR in H.
+    destruct rest; inversion H; subst; [left; reflexivity | discriminate]. }
+  destruct (lookup f (cur ++ [c])) as [[|dd|t]|] eqn:El.
+  - simpl in H |- *. rewrite Ec, ?LR, El in *. apply (IH _ _ _ _ _ _ _ H Hq).
+  - simpl in H |- *. rewrite Ec, ?LR, El in *. right; exact H.
+  - rewrite (walk_S_link _ fk ff k cur c rest t Ec LR) in H.
+    rewrite (walk_S_link f fk ff k cur c rest t Ec El).
+    assert (G : follow_link (fs_remove f q0) fk ff k cur t rest = (r, l) ->
+                r = RMissing q0 \/ follow_link f fk ff k cur t rest = (r, l)).
+    { clear H. intro H. destruct rest as [|c2 rest].
+      - unfold follow_link in *. destruct k as [|k']; [right; exact H|]. apply (IH _ _ _ _ _ _ _ H Hq).
+      - destruct (follow_link_mid _ _ _ _ _ _ _ _ _ _ _ H Hq) as (k' & q1 & l2 & E0 & E1 & E2). subst k.
+        destruct (IH _ _ _ _ _ _ q1 E1 eq_refl) as [X|X]; [discriminate|].
+        destruct (IH _ _ _ _ _ _ _ E2 Hq) as [Y|Y]; [left; exact Y|].
+        right. unfold follow_link. rewrite X. exact Y. }
+    destruct rest as [|c2 rest]; destruct ff; auto.
+  - simpl in H |- *. rewrite Ec, ?LR, El in *. right; exact H.
 Qed.
 
-Lemma resolve_above : forall follow p, good_above p ->
-  resolve f cwd follow p = RFound (start p ++ pparts p) Dir \/ exists x, resolve f cwd follow p = RErr x.
-Proof. intros follow p [r Hr]. unfold resolve; fold (start p). apply walk_above with (r := r). exact Hr. Qed.
+End WalkFacts.
 
-End Walk.
+(* ------------------------------------------------------------------ realpath: composition, missing tails, new directories *)
+Definition start (cwd : rpath) (p : ppath) : rpath := if p_is_abs p then [] else cwd.
 
-(* good_in / good_above mention the filesystem only through "the start directory exists"; for the
-   absolute paths and for cwd = d that is implied by real_dir, so goodness survives updates *)
-Definition good_abs (d : rpath) (p : ppath) : Prop :=
-  p_is_abs p = true /\ nodd (pparts p) /\ under d (pparts p).
-
-Lemma good_abs_in : forall f d cwd p, good_abs d p -> good_in f d cwd p.
+Lemma py_of_walk : forall f cwd p fk j r l q,
+  (S fk <= real_fuel f (pparts p))%nat ->
+  walk fk f true j (start cwd p) (pparts p) = (r, l) -> loc_of r = Some q ->
+  py_realpath f cwd p = Some q.
 Proof.
-  intros f d cwd p [Ha [Hn [r Hr]]]. split; auto. right. exists d, r. unfold start. rewrite Ha. simpl. auto.
+  intros f cwd p fk j r l q Hfk H Hq.
+  destruct (kernel_agrees f fk j (p_is_abs p) _ _ r l q H Hq) as [ab' E].
+  unfold py_realpath. fold (start cwd p).
+  rewrite (pyreal_mono f _ _ _ _ _ _ E) by (auto; discriminate). reflexivity.
 Qed.
 
-(* ------------------------------------------------------------------ Hoare triples over M *)
-Definition hoare {A} (d : rpath) (m : M A) (Q : A -> Prop) : Prop :=
-  forall s, Inv d s -> match m s with Ret a s' => Inv d s' /\ Q a | Exc _ s' => Inv d s' end.
-
-Lemma hoare_ret : forall A d (a : A) (Q : A -> Prop), Q a -> hoare d (ret a) Q.
-Proof. intros A d a Q H s Hs. simpl. auto. Qed.
-
-Lemma hoare_raise : forall A d x (Q : A -> Prop), hoare d (raise x) Q.
-Proof. intros A d x Q s Hs. simpl. auto. Qed.
-
-Lemma hoare_bind : forall A B d (m : M A) (k : A -> M B) (Q : A -> Prop) (R : B -> Prop),
-  hoare d m Q -> (forall a, Q a -> hoare d (k a) R) -> hoare d (mbind m k) R.
+Lemma pyreal_app : forall f fa fb ip ab cur A B ab2 q r,
+  pyreal fa f ip ab cur A = POk ab2 q -> pyreal fb f ip ab2 q B = r -> r <> PFuel ->
+  pyreal (fa + fb) f ip ab cur (A ++ B) = r.
 Proof.
-  intros A B d m k Q R Hm Hk s Hs. unfold mbind. specialize (Hm s Hs).
-  destruct (m s) as [a s'|x s']; auto. destruct Hm as [Hi Hq]. apply (Hk a Hq s' Hi).
+  intros f. induction fa as [|fa IH]; intros fb ip ab cur A B ab2 q r HA HB Hr; [simpl in HA; discriminate|].
+  destruct A as [|c A].
+  - simpl in HA. inversion HA as [[E1 E2]]. subst ab2 q. simpl app. apply (pyreal_mono f _ _ _ _ _ _ HB Hr). lia.
+  - change ((c :: A) ++ B) with (c :: (A ++ B)). change (S fa + fb)%nat with (S (fa + fb)).
+    destruct (is_dotdot c) eqn:Ec.
+    { rewrite pyreal_dd in HA by exact Ec. rewrite pyreal_dd by exact Ec. apply (IH _ _ _ _ _ _ _ _ _ HA HB Hr). }
+    destruct (lookup f (cur ++ [c])) as [[|dd|t]|] eqn:El;
+      try (rewrite pyreal_plain in HA by (auto; intros t0; rewrite El; discriminate);
+           rewrite pyreal_plain by (auto; intros t0; rewrite El; discriminate);
+           apply (IH _ _ _ _ _ _ _ _ _ HA HB Hr)).
+    rewrite (pyreal_link f _ _ _ _ _ _ t Ec El) in HA. rewrite (pyreal_link f _ _ _ _ _ _ t Ec El).
+    destruct (mem_key ab (cur ++ [c]) ip); [discriminate|].
+    destruct (pyreal fa f ((ab, cur ++ [c]) :: ip) (ab || p_is_abs t) (if p_is_abs t then [] else cur) (pparts t))
+      as [ab3 q3|l0 r0|] eqn:E1; try discriminate.
+    rewrite (pyreal_mono f _ _ _ _ _ _ E1) by (try discriminate; lia).
+    apply (IH _ _ _ _ _ _ _ _ _ HA HB Hr).
 Qed.
 
-Lemma hoare_catch : forall A d (m : M A) (h : exn -> M A) (Q : A -> Prop),
-  hoare d m Q -> (forall x, hoare d (h x) Q) -> hoare d (catch m h) Q.
+Lemma py_missing_tail : forall f, wf f -> forall tail q ip ab, lookup f q = None -> nodd tail ->
+  pyreal (S (length tail)) f ip ab q tail = POk ab (q ++ tail).
 Proof.
-  intros A d m h Q Hm Hh s Hs. unfold catch. specialize (Hm s Hs).
+  intros f Hwf. induction tail as [|c tail IH]; intros q ip ab Hq Hn.
+  - rewrite pyreal_nil, app_nil_r. reflexivity.
+  - inversion Hn as [|? ? Hc Ht]; subst. simpl length.
+    assert (Hm : lookup f (q ++ [c]) = None) by (apply wf_below_missing; auto; discriminate).
+    rewrite pyreal_plain by (auto; intros t0; rewrite Hm; discriminate).
+    rewrite IH by auto. rewrite <- app_assoc. reflexivity.
+Qed.
+
+Lemma remove_absent : forall f q, lookup_raw f q = None -> fs_remove f q = f.
+Proof.
+  induction f as [|[a n] f IH]; intros q H; [reflexivity|]. simpl in H |- *.
+  destruct (rpath_eqb a q); [discriminate|]. simpl. rewrite IH by exact H. reflexivity.
+Qed.
+
+Lemma pyreal_new_dir : forall f q0, lookup f q0 = None -> forall fuel ip ab cur todo,
+  pyreal fuel ((q0, Dir) :: f) ip ab cur todo = pyreal fuel f ip ab cur todo.
+Proof.
+  intros f q0 H0. induction fuel as [|fuel IH]; intros ip ab cur todo; [reflexivity|].
+  destruct todo as [|c rest]; [reflexivity|]. simpl. destruct (is_dotdot c); [apply IH|].
+  assert (L : lookup ((q0, Dir) :: f) (cur ++ [c]) = if rpath_eqb q0 (cur ++ [c]) then Some Dir else lookup f (cur ++ [c])).
+  { destruct (cur ++ [c]) eqn:E; [destruct cur; discriminate|]. reflexivity. }
+  rewrite L. destruct (rpath_eqb q0 (cur ++ [c])) eqn:Eq.
+  - apply rpath_eqb_eq in Eq. rewrite <- Eq, H0. apply IH.
+  - destruct (lookup f (cur ++ [c])) as [[|dd|t]|]; try apply IH.
+    destruct (mem_key ab (cur ++ [c]) ip); [reflexivity|]. rewrite IH.
+    destruct (pyreal fuel f ((ab, cur ++ [c]) :: ip) (ab || p_is_abs t) (if p_is_abs t then [] else cur) (pparts t));
+      auto.
+Qed.
+
+Lemma realpath_new_dir : forall f cwd q0 p, lookup f q0 = None ->
+  py_realpath (fs_set f q0 Dir) cwd p = py_realpath f cwd p.
+Proof.
+  intros f cwd q0 p H0. unfold fs_set.
+  assert (R : lookup_raw f q0 = None) by (destruct q0; [discriminate | exact H0]).
+  rewrite (remove_absent _ _ R). unfold py_realpath.
+  replace (real_fuel ((q0, Dir) :: f) (pparts p)) with (real_fuel f (pparts p)) by reflexivity.
+  rewrite pyreal_new_dir by exact H0. reflexivity.
+Qed.
+
+(* ------------------------------------------------------------------ what a passed check guarantees *)
+Definition real_dir (f : fs) (d : rpath) : Prop := forall a b, d = a ++ b -> lookup f a = Some Dir.
+
+Lemma walk_fuel_snoc : forall f A (c : str), walk_fuel f (A ++ [c]) = S (walk_fuel f A).
+Proof. intros. unfold walk_fuel. rewrite app_length. simpl. lia. Qed.
+
+Section Sem.
+Variables (d cwd : rpath).
+
+Lemma start_same : forall p p', proot p = proot p' -> start cwd p = start cwd p'.
+Proof. intros p p' H. unfold start, p_is_abs. rewrite H. reflexivity. Qed.
+
+(* the checked path itself, final link followed *)
+Lemma inside_follow : forall f p fk j r l q,
+  real_inside f cwd d p = true -> (fk <= walk_fuel f (pparts p))%nat ->
+  walk fk f true j (start cwd p) (pparts p) = (r, l) -> loc_of r = Some q -> under d q.
+Proof.
+  intros f p fk j r l q Hin Hfk H Hq.
+  assert (E : py_realpath f cwd p = Some q).
+  { apply (py_of_walk f cwd p fk j r l q); auto. unfold real_fuel. lia. }
+  unfold real_inside in Hin. rewrite E in Hin. apply prefixb_under. exact Hin.
+Qed.
+
+(* a name in the checked directory, not followed *)
+Lemma inside_child : forall f X c fk j r l q,
+  real_inside f cwd d X = true -> is_dotdot c = false -> (fk <= S (walk_fuel f (pparts X)))%nat ->
+  walk fk f false j (start cwd X) (pparts X ++ [c]) = (r, l) -> loc_of r = Some q -> under d q.
+Proof.
+  intros f X c fk j r l q Hin Hc Hfk H Hq.
+  destruct (walk_snoc f fk j _ _ c r l q Hc H Hq) as (qP & lP & W & E). subst q.
+  apply under_snoc.
+  assert (E : py_realpath f cwd X = Some qP).
+  { apply (py_of_walk f cwd X fk j (RFound qP Dir) lP qP); auto. unfold real_fuel. lia. }
+  unfold real_inside in Hin. rewrite E in Hin. apply prefixb_under. exact Hin.
+Qed.
+
+Lemma under_missing : forall f q tail, real_dir f d -> lookup f q = None -> under d (q ++ tail) -> under d q.
+Proof.
+  intros f q tail Hr Hq [r Hr']. symmetry in Hr'. apply app_eq_app in Hr' as [z [[E1 E2]|[E1 E2]]].
+  - rewrite (Hr q z E1) in Hq. discriminate.
+  - exists z. exact E1.
+Qed.
+
+(* a missing leading part of the checked path (mkdir -p creates it) *)
+Lemma inside_prefix : forall f X A tail fk j q l,
+  wf f -> real_dir f d -> lookup f cwd = Some Dir ->
+  real_inside f cwd d X = true -> pparts X = A ++ tail -> nodd tail -> (fk <= walk_fuel f A)%nat ->
+  walk fk f false j (start cwd X) A = (RMissing q, l) -> under d q.
+Proof.
+  intros f X A tail fk j q l Hwf Hrd Hcwd Hin HX Hn Hfk H.
+  apply walk_missing_follow in H.
+  assert (Hs : lookup f (start cwd X) = Some Dir) by (unfold start; destruct (p_is_abs X); auto).
+  pose proof (walk_sound f Hwf _ _ _ _ _ _ _ Hs H) as [Hq _].
+  destruct (kernel_agrees f fk j (p_is_abs X) _ _ _ _ q H eq_refl) as [ab' E].
+  pose proof (py_missing_tail f Hwf tail q [] ab' Hq Hn) as E2.
+  pose proof (pyreal_app f _ _ _ _ _ _ _ _ _ _ E E2) as E3.
+  assert (E3' := E3 ltac:(discriminate)). clear E3.
+  apply (under_missing f q tail Hrd Hq).
+  unfold real_inside, py_realpath in Hin. fold (start cwd X) in Hin. rewrite HX in Hin.
+  destruct (pyreal (real_fuel f (A ++ tail)) f [] (p_is_abs X) (start cwd X) (A ++ tail)) as [ab2 z|l0 r0|] eqn:E4;
+    [| |discriminate].
+  - assert (Y : POk ab2 z = POk ab' (q ++ tail)) by (eapply pyreal_same; eauto; discriminate).
+    inversion Y; subst. apply prefixb_under. exact Hin.
+  - assert (Y : PLoop l0 r0 = POk ab' (q ++ tail)) by (eapply pyreal_same; eauto; discriminate). discriminate.
+Qed.
+
+End Sem.
+
+(* ------------------------------------------------------------------ the invariant *)
+Definition effs_under (d : rpath) (l : list effect) : Prop := Forall (fun e => prefixb d (snd e) = true) l.
+
+Definition Inv (d cwd : rpath) (s : st) : Prop :=
+  wf (s_fs s) /\ real_dir (s_fs s) d /\ lookup (s_fs s) cwd = Some Dir /\ effs_under d (s_eff s).
+
+Lemma dir_kept_set : forall f q n a, lookup f a = Some Dir -> (lookup f q <> Some Dir \/ n = Dir) ->
+  lookup (fs_set f q n) a = Some Dir.
+Proof.
+  intros f q n a Ha Hq. destruct a as [|x a]; [reflexivity|]. rewrite lookup_set by discriminate.
+  destruct (rpath_eqb q (x :: a)) eqn:E; [|exact Ha]. apply rpath_eqb_eq in E. subst q.
+  destruct Hq as [Hq|Hq]; [contradiction | subst; reflexivity].
+Qed.
+
+Lemma dir_kept_remove : forall f q a, lookup f a = Some Dir -> lookup f q <> Some Dir ->
+  lookup (fs_remove f q) a = Some Dir.
+Proof.
+  intros f q a Ha Hq. destruct a as [|x a]; [reflexivity|]. rewrite lookup_remove by discriminate.
+  destruct (rpath_eqb q (x :: a)) eqn:E; [|exact Ha]. apply rpath_eqb_eq in E. subst q. contradiction.
+Qed.
+
+Lemma wf_set : forall f q n, wf f -> lookup f (removelast q) = Some Dir -> (lookup f q <> Some Dir \/ n = Dir) ->
+  wf (fs_set f q n).
+Proof.
+  intros f q n Hwf Hp Hq q' c Hk.
+  assert (Hne : q' ++ [c] <> []) by (destruct q'; discriminate).
+  rewrite lookup_set in Hk by exact Hne. apply dir_kept_set; [|exact Hq].
+  destruct (rpath_eqb q (q' ++ [c])) eqn:E.
+  - apply rpath_eqb_eq in E. subst q. rewrite removelast_snoc in Hp. exact Hp.
+  - apply (Hwf q' c Hk).
+Qed.
+
+Lemma wf_remove : forall f q, wf f -> lookup f q <> Some Dir -> wf (fs_remove f q).
+Proof.
+  intros f q Hwf Hq q' c Hk.
+  assert (Hne : q' ++ [c] <> []) by (destruct q'; discriminate).
+  rewrite lookup_remove in Hk by exact Hne. apply dir_kept_remove; [|exact Hq].
+  destruct (rpath_eqb q (q' ++ [c])); [contradiction|]. apply (Hwf q' c Hk).
+Qed.
+
+Lemma inv_set : forall d cwd s q n k,
+  Inv d cwd s -> under d q -> lookup (s_fs s) (removelast q) = Some Dir ->
+  (lookup (s_fs s) q <> Some Dir \/ n = Dir) ->
+  Inv d cwd (mkSt (fs_set (s_fs s) q n) ((k, q) :: s_eff s)).
+Proof.
+  intros d cwd s q n k (Hwf & Hrd & Hcwd & He) Hu Hp Hq. split; [|split; [|split]]; simpl.
+  - apply wf_set; auto.
+  - intros a b Hab. apply dir_kept_set; auto. apply (Hrd a b Hab).
+  - apply dir_kept_set; auto.
+  - constructor; auto. simpl. apply prefixb_under. exact Hu.
+Qed.
+
+Lemma inv_remove : forall d cwd s q k,
+  Inv d cwd s -> under d q -> lookup (s_fs s) q <> Some Dir ->
+  Inv d cwd (mkSt (fs_remove (s_fs s) q) ((k, q) :: s_eff s)).
+Proof.
+  intros d cwd s q k (Hwf & Hrd & Hcwd & He) Hu Hq. split; [|split; [|split]]; simpl.
+  - apply wf_remove; auto.
+  - intros a b Hab. apply dir_kept_remove; auto. apply (Hrd a b Hab).
+  - apply dir_kept_remove; auto.
+  - constructor; auto. simpl. apply prefixb_under. exact Hu.
+Qed.
+
+Lemma inv_eff : forall d cwd s q k, Inv d cwd s -> under d q -> Inv d cwd (mkSt (s_fs s) ((k, q) :: s_eff s)).
+Proof.
+  intros d cwd s q k (Hwf & Hrd & Hcwd & He) Hu. split; [|split; [|split]]; simpl; auto.
+  constructor; auto. simpl. apply prefixb_under. exact Hu.
+Qed.
+
+(* the parent of something that exists, or of something found missing by a walk, is a directory *)
+Lemma parent_of_found : forall f q n, wf f -> lookup f q = Some n -> lookup f (removelast q) = Some Dir.
+Proof.
+  intros f q n Hwf H. destruct q as [|x q] using rev_ind; [reflexivity|]. rewrite removelast_snoc.
+  apply (Hwf q x). rewrite H. discriminate.
+Qed.
+
+(* ------------------------------------------------------------------ triples over M *)
+Definition triple {A} (P : st -> Prop) (m : M A) (Q : A -> st -> Prop) (E : st -> Prop) : Prop :=
+  forall s, P s -> match m s with Ret a s' => Q a s' | Exc _ s' => E s' end.
+
+Lemma t_ret : forall A (P : st -> Prop) (a : A) (Q : A -> st -> Prop) E, (forall s, P s -> Q a s) -> triple P (ret a) Q E.
+Proof. intros A P a Q E H s Hs. simpl. auto. Qed.
+
+Lemma t_raise : forall A (P : st -> Prop) x (Q : A -> st -> Prop) (E : st -> Prop), (forall s, P s -> E s) -> triple P (raise x) Q E.
+Proof. intros A P x Q E H s Hs. simpl. auto. Qed.
+
+Lemma t_bind : forall A B (P : st -> Prop) (m : M A) (k : A -> M B) Q R E,
+  triple P m Q E -> (forall a, triple (Q a) (k a) R E) -> triple P (mbind m k) R E.
+Proof.
+  intros A B P m k Q R E Hm Hk s Hs. unfold mbind. specialize (Hm s Hs).
+  destruct (m s) as [a s'|x s']; auto. apply (Hk a s' Hm).
+Qed.
+
+Lemma t_catch : forall A (P : st -> Prop) (m : M A) (h : exn -> M A) Q E' E,
+  triple P m Q E' -> (forall x, triple E' (h x) Q E) -> triple P (catch m h) Q E.
+Proof.
+  intros A P m h Q E' E Hm Hh s Hs. unfold catch. specialize (Hm s Hs).
   destruct (m s) as [a s'|x s']; auto. apply (Hh x s' Hm).
 Qed.
 
-Lemma hoare_weaken : forall A d (m : M A) (Q R : A -> Prop),
-  hoare d m Q -> (forall a, Q a -> R a) -> hoare d m R.
+Lemma t_weaken : forall A (P P' : st -> Prop) (m : M A) (Q Q' : A -> st -> Prop) (E E' : st -> Prop),
+  triple P m Q E -> (forall s, P' s -> P s) -> (forall a s, Q a s -> Q' a s) -> (forall s, E s -> E' s) ->
+  triple P' m Q' E'.
 Proof.
-  intros A d m Q R Hm HQR s Hs. specialize (Hm s Hs). destruct (m s); auto. destruct Hm; auto.
+  intros A P P' m Q Q' E E' H HP HQ HE s Hs. specialize (H s (HP s Hs)). destruct (m s); auto.
 Qed.
 
-(* reading the filesystem changes nothing *)
-Lemma hoare_res_of : forall d cwd follow p, hoare d (res_of cwd follow p) (fun _ => True).
-Proof. intros d cwd follow p s Hs. simpl. auto. Qed.
+(* queries change nothing *)
+Lemma t_query : forall A (P : st -> Prop) (m : M A), (forall s, exists a, m s = Ret a s) ->
+  forall E, triple P m (fun _ => P) E.
+Proof. intros A P m H E s Hs. destruct (H s) as [a Ha]. rewrite Ha. exact Hs. Qed.
 
-Lemma hoare_query : forall d cwd p (g : rres -> bool),
-  hoare d (let* r := res_of cwd true p in ret (g r)) (fun _ => True).
-Proof. intros d cwd p g s Hs. simpl. auto. Qed.
+Lemma q_exists : forall cwd p s, exists a, path_exists cwd p s = Ret a s.
+Proof. intros. eexists. reflexivity. Qed.
+Lemma q_is_dir : forall cwd p s, exists a, path_is_dir cwd p s = Ret a s.
+Proof. intros. eexists. reflexivity. Qed.
 
-Lemma hoare_exists : forall d cwd p, hoare d (path_exists cwd p) (fun _ => True).
-Proof. intros d cwd p s Hs. simpl. auto. Qed.
-Lemma hoare_is_dir : forall d cwd p, hoare d (path_is_dir cwd p) (fun _ => True).
-Proof. intros d cwd p s Hs. simpl. auto. Qed.
-
-(* ------------------------------------------------------------------ system calls *)
+(* ------------------------------------------------------------------ system calls after a check *)
 Section Sys.
 Variables (d cwd : rpath).
-Hypothesis Hd : nodd d.
 
-(* goodness relative to the current state *)
-Definition goodS (p : ppath) : Prop := forall s, Inv d s -> good (s_fs s) d cwd p.
-Definition good_inS (p : ppath) : Prop := forall s, Inv d s -> good_in (s_fs s) d cwd p.
+Definition Safe (X : ppath) (s : st) : Prop := real_inside (s_fs s) cwd d X = true.
+Definition IS (X : ppath) (s : st) : Prop := Inv d cwd s /\ Safe X s.
 
-Ltac start_sys s Hs Hr Hl He :=
-  intros s Hs; destruct Hs as [Hr [Hl He]]; unfold mbind, res_of; simpl.
+(* p is the checked path X, a leading part of it, or a name in it *)
+Definition GoodP (X p : ppath) : Prop :=
+  proot p = proot X /\ nodd (pparts X) /\
+  ((exists tail, pparts X = pparts p ++ tail) \/ (exists c, pparts p = pparts X ++ [c] /\ is_dotdot c = false)).
 
-Lemma add_eff : forall k q l, under d q -> effs_under d l -> effs_under d ((k, q) :: l).
-Proof. intros k q l Hu Hl. constructor; auto. simpl. apply prefixb_under. exact Hu. Qed.
-
-Ltac same_state := match goal with Hr : real_dir _ _, Hl : links_safe _ _, He : effs_under _ _ |- _ =>
-  first [exact (conj Hr (conj Hl He)) | exact (conj (conj Hr (conj Hl He)) I)] end.
-
-Lemma hoare_mkdir : forall p, goodS p -> hoare d (sys_mkdir cwd p) (fun _ => True).
+Lemma resolve_walk : forall f follow p, exists l,
+  walk (walk_fuel f (pparts p)) f follow MAXSYMLINKS (start cwd p) (pparts p) = (resolve f cwd follow p, l).
 Proof.
-  intros p Hg s Hs. pose proof (Hg s Hs) as G. destruct Hs as [Hr [Hl He]].
-  unfold sys_mkdir, mbind, res_of.
-  destruct G as [G|G].
-  - pose proof (resolve_in (s_fs s) d Hr Hl cwd false p G) as R.
-    destruct (resolve (s_fs s) cwd false p) as [q n|q|x]; simpl; try same_state.
-    destruct R as [Hu Hn]. split; [|exact I]. split; [|split]; simpl.
-    + apply real_dir_set_dir; auto.
-    + apply links_safe_set; auto. intros t Ht; discriminate.
-    + apply add_eff; auto.
-  - destruct (resolve_above (s_fs s) d Hr Hd cwd false p G) as [R|[x R]]; rewrite R; simpl; same_state.
+  intros. unfold resolve, start.
+  destruct (walk (walk_fuel f (pparts p)) f follow MAXSYMLINKS (if p_is_abs p then [] else cwd) (pparts p)) as [r l].
+  exists l. reflexivity.
 Qed.
 
-Lemma hoare_symlink : forall t p, safe_target t -> good_inS p -> hoare d (sys_symlink cwd t p) (fun _ => True).
+Lemma start_dir : forall s p, Inv d cwd s -> lookup (s_fs s) (start cwd p) = Some Dir.
+Proof. intros s p (_ & _ & H & _). unfold start. destruct (p_is_abs p); auto. Qed.
+
+Lemma good_missing_under : forall X p s q, GoodP X p -> IS X s ->
+  resolve (s_fs s) cwd false p = RMissing q -> under d q.
 Proof.
-  intros t p Ht Hg s Hs. pose proof (Hg s Hs) as G. destruct Hs as [Hr [Hl He]].
-  unfold sys_symlink, mbind, res_of.
-  pose proof (resolve_in (s_fs s) d Hr Hl cwd false p G) as R.
-  destruct (resolve (s_fs s) cwd false p) as [q n|q|x]; simpl; try same_state.
-  destruct R as [Hu Hn]. split; [|exact I]. split; [|split]; simpl.
-  - apply real_dir_set; auto. rewrite Hn. discriminate.
-  - apply links_safe_set; auto. intros t' Ht'. inversion Ht'; subst; auto.
-  - apply add_eff; auto.
+  intros X p s q (Hr & Hn & Hg) [Hi Hs] H.
+  destruct (resolve_walk (s_fs s) false p) as [l W]. rewrite H in W.
+  rewrite (start_same cwd p X Hr) in W. destruct Hi as (Hwf & Hrd & Hcwd & _).
+  destruct Hg as [[tail Ht]|[c [Hc Hcc]]].
+  - apply (inside_prefix d cwd (s_fs s) X (pparts p) tail (walk_fuel (s_fs s) (pparts p)) MAXSYMLINKS q l); auto.
+    rewrite Ht in Hn. apply nodd_app in Hn. apply Hn.
+  - rewrite Hc in W. apply (inside_child d cwd (s_fs s) X c _ _ _ l q Hs Hcc) in W; auto.
+    rewrite walk_fuel_snoc. lia.
 Qed.
 
-Lemma hoare_unlink : forall p, good_inS p -> hoare d (sys_unlink cwd p) (fun _ => True).
+Lemma t_sys_mkdir : forall X p, GoodP X p -> triple (IS X) (sys_mkdir cwd p) (fun _ => IS X) (IS X).
 Proof.
-  intros p Hg s Hs. pose proof (Hg s Hs) as G. destruct Hs as [Hr [Hl He]].
-  unfold sys_unlink, mbind, res_of.
-  pose proof (resolve_in (s_fs s) d Hr Hl cwd false p G) as R.
-  destruct (resolve (s_fs s) cwd false p) as [q n|q|x]; simpl; try same_state.
-  destruct R as [Hu Hn].
-  destruct n as [|c|t]; simpl; try same_state;
-    (split; [|exact I]; split; [|split]; simpl;
-     [apply real_dir_remove; auto; rewrite Hn; discriminate
-     |apply links_safe_remove; auto
-     |apply add_eff; auto]).
+  intros X p Hg s Hs. unfold sys_mkdir, mbind, res_of.
+  destruct (resolve (s_fs s) cwd false p) as [q n|q|x] eqn:R; simpl; auto.
+  pose proof (good_missing_under X p s q Hg Hs R) as Hu.
+  destruct (resolve_walk (s_fs s) false p) as [l W]. rewrite R in W.
+  destruct Hs as [Hi Hsafe]. pose proof Hi as (Hwf & _).
+  pose proof (walk_sound _ Hwf _ _ _ _ _ _ _ (start_dir s p Hi) W) as [Hq (p0 & c0 & E0 & Hp0)].
+  split.
+  - apply inv_set; auto. subst q. rewrite removelast_snoc. exact Hp0.
+  - unfold Safe, real_inside in *. simpl. rewrite realpath_new_dir by exact Hq. exact Hsafe.
 Qed.
 
-Lemma hoare_open_wb : forall p data, good_inS p -> hoare d (sys_open_wb cwd p data) (fun _ => True).
+Lemma good_parent : forall X p, GoodP X p -> GoodP X (pparent p).
 Proof.
-  intros p data Hg s Hs. pose proof (Hg s Hs) as G. destruct Hs as [Hr [Hl He]].
-  unfold sys_open_wb, mbind, res_of.
-  pose proof (resolve_in (s_fs s) d Hr Hl cwd true p G) as R.
-  destruct (resolve (s_fs s) cwd true p) as [q n|q|x]; simpl; try same_state.
-  - destruct R as [Hu Hn].
-    destruct n as [|c|t]; simpl; try same_state;
-      (split; [|exact I]; split; [|split]; simpl;
-       [apply real_dir_set; auto; rewrite Hn; discriminate
-       |apply links_safe_set; auto; intros t' Ht'; discriminate
-       |apply add_eff; auto]).
-  - destruct R as [Hu Hn]. split; [|exact I]. split; [|split]; simpl.
-    + apply real_dir_set; auto. rewrite Hn; discriminate.
-    + apply links_safe_set; auto. intros t' Ht'; discriminate.
-    + apply add_eff; auto.
+  intros X p (Hr & Hn & Hg). split; [exact Hr|]. split; [exact Hn|]. left. simpl.
+  destruct Hg as [[tail Ht]|[c [Hc _]]].
+  - destruct (pparts p) as [|x l] eqn:E; [exists tail; exact Ht|].
+    exists (last (x :: l) [] :: tail). rewrite Ht.
+    assert (E2 : x :: l = removelast (x :: l) ++ [last (x :: l) []]) by (apply app_removelast_last; discriminate).
+    rewrite E2 at 1. rewrite <- app_assoc. reflexivity.
+  - exists []. rewrite Hc, removelast_snoc, app_nil_r. reflexivity.
 Qed.
 
-Lemma hoare_open_creat : forall p, good_inS p -> hoare d (sys_open_creat cwd p) (fun _ => True).
+Lemma t_path_mkdir : forall X fuel p pa eo, GoodP X p ->
+  triple (IS X) (path_mkdir cwd fuel p pa eo) (fun _ => IS X) (IS X).
 Proof.
-  intros p Hg s Hs. pose proof (Hg s Hs) as G. destruct Hs as [Hr [Hl He]].
-  unfold sys_open_creat, mbind, res_of.
-  pose proof (resolve_in (s_fs s) d Hr Hl cwd true p G) as R.
-  destruct (resolve (s_fs s) cwd true p) as [q n|q|x]; simpl; try same_state.
-  - destruct n; simpl; same_state.
-  - destruct R as [Hu Hn]. split; [|exact I]. split; [|split]; simpl.
-    + apply real_dir_set; auto. rewrite Hn; discriminate.
-    + apply links_safe_set; auto. intros t' Ht'; discriminate.
-    + apply add_eff; auto.
-Qed.
-
-Lemma hoare_touch_meta : forall k p, good_inS p -> hoare d (sys_touch_meta cwd k p) (fun _ => True).
-Proof.
-  intros k p Hg s Hs. pose proof (Hg s Hs) as G. destruct Hs as [Hr [Hl He]].
-  unfold sys_touch_meta, mbind, res_of.
-  pose proof (resolve_in (s_fs s) d Hr Hl cwd true p G) as R.
-  destruct (resolve (s_fs s) cwd true p) as [q n|q|x]; simpl; try same_state.
-  destruct R as [Hu Hn]. split; [|exact I]. split; [|split]; simpl; auto. apply add_eff; auto.
-Qed.
-
-Lemma hoare_touch : forall p, good_inS p -> hoare d (path_touch cwd p) (fun _ => True).
-Proof.
-  intros p Hg. unfold path_touch. apply hoare_catch.
-  - apply hoare_touch_meta; auto.
-  - intros x. apply hoare_open_creat; auto.
+  intros X. induction fuel as [|fuel IH]; intros p pa eo Hg; simpl;
+    (eapply t_catch; [apply t_sys_mkdir; exact Hg|]); intros x.
+  - destruct x; try (destruct (negb eo); [apply t_raise; auto|];
+      eapply t_bind; [apply t_query; apply q_is_dir | intros b; destruct b; [apply t_ret | apply t_raise]; auto]).
+    destruct (negb pa || p_eqb (pparent p) p); apply t_raise; auto.
+  - destruct x; try (destruct (negb eo); [apply t_raise; auto|];
+      eapply t_bind; [apply t_query; apply q_is_dir | intros b; destruct b; [apply t_ret | apply t_raise]; auto]).
+    destruct (negb pa || p_eqb (pparent p) p); [apply t_raise; auto|].
+    eapply t_bind; [apply IH; apply good_parent; exact Hg | intros u; apply IH; exact Hg].
 Qed.
 
 End Sys.
 
-(* ------------------------------------------------------------------ the paths extraction uses *)
-Section Paths.
+Lemma max_link_len_remove : forall f q, (max_link_len (fs_remove f q) <= max_link_len f)%nat.
+Proof.
+  induction f as [|[a n] f IH]; intros q; simpl; [lia|].
+  destruct (negb (rpath_eqb a q)); simpl; specialize (IH q); destruct n; lia.
+Qed.
+
+Lemma walk_fuel_remove : forall f q todo, (walk_fuel (fs_remove f q) todo <= walk_fuel f todo)%nat.
+Proof. intros. unfold walk_fuel. pose proof (max_link_len_remove f q). nia. Qed.
+
+Section Sys2.
 Variables (d cwd : rpath).
-Hypothesis Hd : nodd d.
+Notation Inv' := (Inv d cwd).
+Notation IS' := (IS d cwd).
 
-(* state-independent: a path without ".." that is relative while cwd = d, or leads down through d *)
-Definition okp (p : ppath) : Prop :=
-  nodd (pparts p) /\
-  ((p_is_abs p = false /\ cwd = d) \/ (exists d2 r, d = start cwd p ++ d2 /\ pparts p = d2 ++ r)).
-Definition okg (p : ppath) : Prop := okp p \/ good_above d cwd p.
-
-Lemma okp_good_in : forall p, okp p -> good_inS d cwd p.
+Lemma t_guard : forall p, triple Inv' (guard cwd (Some d) p) (fun _ => IS' p) Inv'.
 Proof.
-  intros p [Hn [[Ha Hc] | Hdown]] s [Hr [Hl He]]; split; auto.
-  left. unfold start. rewrite Ha. subst cwd. split; [apply under_refl|]. apply (Hr d []). rewrite app_nil_r; reflexivity.
+  intros p s Hs. unfold guard, check_inside. destruct (real_inside (s_fs s) cwd d p) eqn:E; [|exact Hs].
+  split; [exact Hs | exact E].
 Qed.
 
-Lemma okg_good : forall p, okg p -> goodS d cwd p.
+Lemma follow_under : forall o s q n, IS' o s ->
+  (resolve (s_fs s) cwd true o = RFound q n \/ resolve (s_fs s) cwd true o = RMissing q) -> under d q.
 Proof.
-  intros p [H|H] s Hs; [left; apply (okp_good_in p H s Hs) | right; exact H].
+  intros o s q n [Hi Hs] H. destruct (resolve_walk cwd (s_fs s) true o) as [l W].
+  apply (inside_follow d cwd (s_fs s) o _ _ _ l q Hs (le_n _) W). destruct H as [H|H]; rewrite H; reflexivity.
 Qed.
 
-Lemma start_parent : forall p, start cwd (pparent p) = start cwd p.
-Proof. intros; reflexivity. Qed.
-
-Lemma split_last : forall (l : list str), l <> [] -> l = removelast l ++ [last l []].
-Proof. intros l H. apply app_removelast_last. exact H. Qed.
-
-Lemma okg_parent : forall p, okg p -> okg (pparent p).
+Lemma t_open_wb : forall o data, triple (IS' o) (sys_open_wb cwd o data) (fun _ => Inv') Inv'.
 Proof.
-  intros p [[Hn [[Ha Hc] | [d2 [r [Hd2 Hp]]]]] | H].
-  - left. split; [apply nodd_removelast; exact Hn|]. left. split; auto.
-  - destruct r as [|c r].
-    + right. unfold good_above. rewrite start_parent. simpl. rewrite app_nil_r in Hp. rewrite Hp.
-      destruct d2 as [|c d2].
-      * exists []. simpl. exact Hd2.
-      * exists [last (c :: d2) []]. rewrite <- split_last by discriminate. exact Hd2.
-    + left. split; [apply nodd_removelast; exact Hn|]. right. exists d2, (removelast (c :: r)).
-      rewrite start_parent. split; auto. simpl pparts. rewrite Hp. apply removelast_app. discriminate.
-  - right. destruct H as [r Hr]. unfold good_above. rewrite start_parent. simpl pparts.
-    destruct (pparts p) as [|c l] eqn:E; [exists r; exact Hr|].
-    exists (last (c :: l) [] :: r).
-    change (last (c :: l) [] :: r) with ([last (c :: l) []] ++ r).
-    rewrite (app_assoc (removelast (c :: l))). rewrite <- split_last by discriminate. exact Hr.
+  intros o data s Hs. unfold sys_open_wb, mbind, res_of.
+  destruct (resolve_walk cwd (s_fs s) true o) as [l W]. pose proof Hs as [Hi _]. pose proof Hi as (Hwf & _).
+  pose proof (walk_sound _ Hwf _ _ _ _ _ _ _ (start_dir d cwd s o Hi) W) as Snd.
+  destruct (resolve (s_fs s) cwd true o) as [q n|q|x] eqn:R; simpl; auto.
+  - assert (Hu : under d q) by (apply (follow_under o s q n Hs); auto).
+    simpl in Snd.
+    pose proof (parent_of_found _ _ _ Hwf Snd) as Hp.
+    destruct n as [|dd|t]; simpl.
+    + exact Hi.
+    + apply (inv_set d cwd s q (File data) KTrunc Hi Hu Hp). left. rewrite Snd. discriminate.
+    + apply (inv_set d cwd s q (File data) KTrunc Hi Hu Hp). left. rewrite Snd. discriminate.
+  - assert (Hu : under d q) by (apply (follow_under o s q Dir Hs); auto).
+    destruct Snd as [Hq (p0 & c0 & E0 & Hp0)].
+    apply (inv_set d cwd s q (File data) KCreate Hi Hu); [subst q; rewrite removelast_snoc; exact Hp0 | left; rewrite Hq; discriminate].
 Qed.
 
-Lemma hoare_path_mkdir : forall fuel p pa eo, okg p -> hoare d (path_mkdir cwd fuel p pa eo) (fun _ => True).
+Lemma t_open_creat : forall o, triple (IS' o) (sys_open_creat cwd o) (fun _ => Inv') Inv'.
 Proof.
-  induction fuel as [|fuel IH]; intros p pa eo Hg.
-  - simpl. apply hoare_catch; [apply hoare_mkdir; auto; apply okg_good; exact Hg|].
-    intros x. destruct x; try (destruct (negb eo); [apply hoare_raise|];
-      eapply hoare_bind; [apply hoare_is_dir | intros b _; destruct b; [apply hoare_ret; exact I | apply hoare_raise]]).
-    destruct (negb pa || p_eqb (pparent p) p); apply hoare_raise.
-  - simpl. apply hoare_catch; [apply hoare_mkdir; auto; apply okg_good; exact Hg|].
-    intros x. destruct x; try (destruct (negb eo); [apply hoare_raise|];
-      eapply hoare_bind; [apply hoare_is_dir | intros b _; destruct b; [apply hoare_ret; exact I | apply hoare_raise]]).
-    destruct (negb pa || p_eqb (pparent p) p); [apply hoare_raise|].
-    eapply hoare_bind; [apply IH; apply okg_parent; exact Hg | intros _ _; apply IH; exact Hg].
+  intros o s Hs. unfold sys_open_creat, mbind, res_of.
+  destruct (resolve_walk cwd (s_fs s) true o) as [l W]. pose proof Hs as [Hi _]. pose proof Hi as (Hwf & _).
+  pose proof (walk_sound _ Hwf _ _ _ _ _ _ _ (start_dir d cwd s o Hi) W) as Snd.
+  destruct (resolve (s_fs s) cwd true o) as [q n|q|x] eqn:R; simpl; auto.
+  - destruct n; simpl; auto.
+  - assert (Hu : under d q) by (apply (follow_under o s q Dir Hs); auto).
+    destruct Snd as [Hq (p0 & c0 & E0 & Hp0)].
+    apply (inv_set d cwd s q (File []) KCreate Hi Hu); [subst q; rewrite removelast_snoc; exact Hp0 | left; rewrite Hq; discriminate].
 Qed.
 
-End Paths.
+Lemma t_touch_meta : forall k o, triple (IS' o) (sys_touch_meta cwd k o) (fun _ => IS' o) (IS' o).
+Proof.
+  intros k o s Hs. unfold sys_touch_meta, mbind, res_of.
+  destruct (resolve (s_fs s) cwd true o) as [q n|q|x] eqn:R; simpl; auto.
+  assert (Hu : under d q) by (apply (follow_under o s q n Hs); auto).
+  destruct Hs as [Hi Hsafe]. split; [apply inv_eff; auto | exact Hsafe].
+Qed.
+
+Lemma t_touch : forall o, triple (IS' o) (path_touch cwd o) (fun _ => Inv') Inv'.
+Proof.
+  intros o. unfold path_touch. apply t_catch with (E' := IS' o).
+  - eapply t_weaken; [apply (t_touch_meta KUtime o) | auto | intros a s [H _]; exact H | auto].
+  - intros x. apply t_open_creat.
+Qed.
+
+End Sys2.
+
+Section Sys3.
+Variables (d cwd : rpath).
+Notation Inv' := (Inv d cwd).
+Notation IS' := (IS d cwd).
+
+(* the state between the removal of an old link and the creation of the new one *)
+Definition Pre2 (P : ppath) (s : st) : Prop :=
+  Inv' s /\ (Safe d cwd P s \/
+             exists f0 q0, s_fs s = fs_remove f0 q0 /\ under d q0 /\ real_inside f0 cwd d P = true).
+
+(* o = P / c *)
+Definition child_of (P o : ppath) (c : str) : Prop :=
+  proot o = proot P /\ pparts o = pparts P ++ [c] /\ is_dotdot c = false.
+
+Lemma child_under : forall P o c s r q, child_of P o c -> IS' P s ->
+  resolve (s_fs s) cwd false o = r -> loc_of r = Some q -> under d q.
+Proof.
+  intros P o c s r q (Hr & Hp & Hc) [Hi Hs] H Hq. destruct (resolve_walk cwd (s_fs s) false o) as [l W].
+  rewrite H in W. rewrite (start_same cwd o P Hr), Hp in W.
+  apply (inside_child d cwd (s_fs s) P c _ _ _ l q Hs Hc) in W; auto. rewrite walk_fuel_snoc. lia.
+Qed.
+
+Lemma t_unlink : forall P o c, child_of P o c -> triple (IS' P) (sys_unlink cwd o) (fun _ => Pre2 P) Inv'.
+Proof.
+  intros P o c Hch s Hs. unfold sys_unlink, mbind, res_of.
+  destruct (resolve_walk cwd (s_fs s) false o) as [l W]. pose proof Hs as [Hi Hsafe]. pose proof Hi as (Hwf & _).
+  pose proof (walk_sound _ Hwf _ _ _ _ _ _ _ (start_dir d cwd s o Hi) W) as Snd.
+  destruct (resolve (s_fs s) cwd false o) as [q n|q|x] eqn:R; simpl; auto.
+  assert (Hu : under d q) by (apply (child_under P o c s _ q Hch Hs R); reflexivity).
+  simpl in Snd.
+  assert (G : forall n', lookup (s_fs s) q = Some n' -> n' <> Dir ->
+              Pre2 P (mkSt (fs_remove (s_fs s) q) ((KUnlink, q) :: s_eff s))).
+  { intros n' Hn' Hd. split.
+    - apply inv_remove; auto. rewrite Hn'. congruence.
+    - right. exists (s_fs s), q. auto. }
+  destruct n as [|dd|t]; simpl; [exact Hi | apply (G _ Snd); discriminate | apply (G _ Snd); discriminate].
+Qed.
+
+Lemma t_symlink : forall P o c t, child_of P o c -> triple (Pre2 P) (sys_symlink cwd t o) (fun _ => Inv') Inv'.
+Proof.
+  intros P o c t Hch s [Hi Hpre]. unfold sys_symlink, mbind, res_of.
+  destruct (resolve_walk cwd (s_fs s) false o) as [l W]. pose proof Hi as (Hwf & _).
+  pose proof (walk_sound _ Hwf _ _ _ _ _ _ _ (start_dir d cwd s o Hi) W) as Snd.
+  destruct (resolve (s_fs s) cwd false o) as [q n|q|x] eqn:R; simpl; auto.
+  destruct Snd as [Hq (p0 & c0 & E0 & Hp0)].
+  assert (Hu : under d q).
+  { destruct Hpre as [Hs|(f0 & q0 & Ef & Hu0 & Hin0)].
+    - apply (child_under P o c s _ q Hch (conj Hi Hs) R). reflexivity.
+    - destruct Hch as (Hr & Hp & Hc). rewrite Ef in W.
+      destruct (walk_remove f0 q0 _ _ _ _ _ _ _ q W eq_refl) as [X|X].
+      + inversion X; subst. exact Hu0.
+      + rewrite (start_same cwd o P Hr), Hp in X.
+        apply (inside_child d cwd f0 P c _ _ _ l q Hin0 Hc) in X; auto.
+        pose proof (walk_fuel_remove f0 q0 (pparts P ++ [c])) as HH. rewrite !walk_fuel_snoc in HH. rewrite walk_fuel_snoc. lia. }
+  apply (inv_set d cwd s q (Link t) KSymlink Hi Hu); [subst q; rewrite removelast_snoc; exact Hp0 | left; rewrite Hq; discriminate].
+Qed.
+
+(* the path names no entry of a directory: it is the start directory itself *)
+Lemma t_unlink_root : forall o, pparts o = [] -> triple Inv' (sys_unlink cwd o) (fun _ => Inv') Inv'.
+Proof.
+  intros o Ho s Hs. unfold sys_unlink, mbind, res_of, resolve. rewrite Ho. simpl. exact Hs.
+Qed.
+Lemma t_symlink_root : forall o t, pparts o = [] -> triple Inv' (sys_symlink cwd t o) (fun _ => Inv') Inv'.
+Proof.
+  intros o t Ho s Hs. unfold sys_symlink, mbind, res_of, resolve. rewrite Ho. simpl. exact Hs.
+Qed.
+
+End Sys3.
 
 (* ------------------------------------------------------------------ canonical_path and the sanitiser *)
 Definition alldd (l : list str) : Prop := Forall (fun c => is_dotdot c = true) l.
@@ -551,111 +1062,158 @@ Proof.
   pose proof (canon_root1 _ E1) as Hp. fold t in Hp. rewrite Hr in Hp. apply nodd_app in Hp. apply Hp.
 Qed.
 
+Lemma canon_rooted : forall X, proot (canonical_path X) <> 0 -> nodd (pparts (canonical_path X)).
+Proof.
+  intros X. unfold canonical_path.
+  destruct (canon_shape (items X) []) as [dds [rest [Hc [Hdd Hr]]]].
+  { exists [], []. repeat split; constructor. }
+  rewrite Hc. destruct dds as [|x dds].
+  - simpl. destruct rest as [|y rest]; simpl; [intros H; exfalso; apply H; reflexivity|].
+    inversion Hr; subst.
+    destruct (str_eqb y [SLASH]); simpl; [auto|]. destruct (str_eqb y [SLASH; SLASH]); simpl; auto.
+    all: try (intros HH; exfalso; apply HH; reflexivity).
+  - inversion Hdd as [|? ? Hx]; subst. unfold is_dotdot in Hx. apply str_eqb_eq in Hx. subst x. simpl.
+    intros HH; exfalso; apply HH; reflexivity.
+Qed.
+
+(* the base the sanitiser works from keeps a root when "..", "." and names are resolved in its text (every destination
+   that does not begin with exactly two slashes, see rooted_not_two) *)
+Definition dest_rooted (cwd : rpath) (dest : option ppath) : Prop :=
+  match sanitize_base cwd dest with Some b => proot (canonical_path b) <> 0 | None => True end.
+
+(* every name the sanitiser accepts is free of ".." *)
+Lemma sanitize_nodd : forall nm cwd dest o, nodd cwd -> dest_rooted cwd dest ->
+  get_sanitized_output_path nm cwd (sanitize_base cwd dest) = Some o -> nodd (pparts o).
+Proof.
+  intros nm cwd dest o Hcwd Hroot H. unfold dest_rooted in Hroot.
+  destruct (sanitize_base cwd dest) as [b|].
+  - unfold get_sanitized_output_path in H.
+    destruct (is_relative_to (canonical_path (pjoin b (remove_relative_path_marker (lstrip SLASH nm)))) b) eqn:E;
+      [|discriminate].
+    inversion H; subst o; clear H. unfold is_relative_to in E. apply andb_true_iff in E as [E1 _].
+    apply Z.eqb_eq in E1. apply canon_rooted. rewrite E1. exact Hroot.
+  - apply (sanitize_none_ok nm cwd o Hcwd H).
+Qed.
+
 (* ------------------------------------------------------------------ the extraction program *)
-(* a symbolic-link member whose target text is relative and has no ".." (members that are not links,
-   or links with an empty stream -- extracted as empty files -- are unconstrained) *)
-Definition entry_ok (e : entry) : Prop :=
-  e_kind e = 2 -> e_empty e = false -> safe_target (pparse (e_data e)).
-
-(* the names members are written under (duplicates renamed), as the registration loop computes them *)
-Fixpoint outnames (es : list entry) (names : list (str * Z)) : list str :=
-  match es with
-  | [] => []
-  | e :: es' => let '(nm, names') := outname names (e_name e) in nm :: outnames es' names'
-  end.
-
 Opaque path_mkdir path_touch sys_touch_meta sys_open_wb sys_symlink sys_unlink path_exists path_is_dir.
+
+Lemma snoc_case : forall (l : list str), l = [] \/ exists l' c, l = l' ++ [c].
+Proof. intros l. destruct l as [|x l] using rev_ind; [left; reflexivity | right; exists l, x; reflexivity]. Qed.
+
+Lemma nodd_last : forall l c, nodd (l ++ [c]) -> is_dotdot c = false.
+Proof. intros l c H. apply nodd_app in H as [_ H]. inversion H; auto. Qed.
 
 Section Program.
 Variables (d cwd : rpath) (dest : option ppath).
-Hypothesis Hd : nodd d.
-Variable N : str -> Prop.
-Hypothesis Hsan : forall nm o, N nm ->
-  get_sanitized_output_path nm cwd (sanitize_base cwd dest) = Some o -> okp d cwd o.
+Notation Inv' := (Inv d cwd).
+Notation IS' := (IS d cwd).
+Hypothesis Hsan : forall nm o, get_sanitized_output_path nm cwd (sanitize_base cwd dest) = Some o -> nodd (pparts o).
 
+Definition okout (oo : option ppath) : Prop := match oo with Some o => nodd (pparts o) | None => True end.
 Definition regok (r : reg) : Prop :=
-  Forall (fun eo => entry_ok (fst eo) /\ match snd eo with Some o => okp d cwd o | None => True end) (r_out r) /\
-  Forall (fun oe => okp d cwd (fst oe)) (r_files r) /\
-  Forall (okp d cwd) (r_dirs r).
+  Forall (fun eo : entry * option ppath => okout (snd eo)) (r_out r) /\
+  Forall (fun oe : ppath * entry => nodd (pparts (fst oe))) (r_files r) /\
+  Forall (fun o : ppath => nodd (pparts o)) (r_dirs r).
 
-Lemma hoare_register : forall es names r,
-  Forall N (outnames es names) -> Forall entry_ok es -> regok r ->
-  hoare d (register cwd dest es names r) regok.
+Lemma t_register : forall es names r, regok r ->
+  triple Inv' (register cwd dest es names r) (fun r' s => Inv' s /\ regok r') Inv'.
 Proof.
-  induction es as [|e es IH]; intros names r HN He Hr.
-  - simpl. apply hoare_ret. exact Hr.
-  - simpl in HN. simpl register. destruct (outname names (e_name e)) as [nm names'] eqn:Eo.
-    inversion HN as [|? ? HN1 HN2]; subst. inversion He as [|? ? He1 He2]; subst.
-    destruct (get_sanitized_output_path nm cwd (sanitize_base cwd dest)) as [o|] eqn:Es; [|apply hoare_raise].
-    pose proof (Hsan nm o HN1 Es) as Ho. destruct Hr as [R1 [R2 R3]].
-    assert (FA : forall A (P : A -> Prop) x l, P x -> Forall P l -> Forall P (x :: l)) by (intros; constructor; auto).
-    assert (O1 : forall oo, match oo with Some o0 => okp d cwd o0 | None => True end ->
-                 Forall (fun eo : entry * option ppath => entry_ok (fst eo) /\
-                           match snd eo with Some o0 => okp d cwd o0 | None => True end) ((e, oo) :: r_out r))
-      by (intros oo Hoo; constructor; [split; simpl; auto | exact R1]).
+  induction es as [|e es IH]; intros names r Hr.
+  - simpl. apply t_ret. auto.
+  - simpl register. destruct (outname names (e_name e)) as [nm names'].
+    destruct (get_sanitized_output_path nm cwd (sanitize_base cwd dest)) as [o|] eqn:Es; [|apply t_raise; auto].
+    pose proof (Hsan nm o Es) as Ho. destruct Hr as (R1 & R2 & R3).
     destruct (e_kind e =? 1).
-    + eapply hoare_bind; [apply hoare_exists|]. intros ex _. destruct ex.
-      * apply IH; auto. split; [|split]; simpl; auto; try (apply (O1 None); exact I).
-      * apply IH; auto. split; [|split]; simpl; auto; try (apply (O1 None); exact I).
-    + destruct (e_kind e =? 2).
-      * apply IH; auto. split; [|split]; simpl; auto; try (apply (O1 (Some o)); exact Ho).
-      * apply IH; auto. split; [|split]; simpl; auto; try (apply (O1 (Some o)); exact Ho).
+    + eapply t_bind; [apply t_query; apply q_exists|]. intros ex. destruct ex; apply IH; (split; [|split]); simpl; auto;
+        constructor; simpl; auto.
+    + destruct (e_kind e =? 2); apply IH; (split; [|split]); simpl; auto; constructor; simpl; auto.
 Qed.
 
-Lemma hoare_make_dirs : forall ds, Forall (okp d cwd) ds -> hoare d (make_dirs cwd ds) (fun _ => True).
+Lemma good_self : forall X, nodd (pparts X) -> GoodP X X.
+Proof. intros X H. split; [reflexivity|]. split; [exact H|]. left. exists []. rewrite app_nil_r. reflexivity. Qed.
+
+Lemma good_self_child : forall t, nodd (pparts t) -> GoodP (pparent t) t.
 Proof.
-  induction ds as [|p ds IH]; intros H; simpl.
-  - apply hoare_ret. exact I.
-  - inversion H; subst. eapply hoare_bind; [|intros _ _; apply IH; auto].
-    apply hoare_catch; [apply hoare_path_mkdir; auto; left; auto|].
-    intros x. destruct x; try apply hoare_raise.
-    eapply hoare_bind; [apply hoare_is_dir|]. intros b _. destruct b; [apply hoare_ret; exact I | apply hoare_raise].
+  intros t H. split; [reflexivity|]. split; [simpl; apply nodd_removelast; exact H|]. simpl.
+  destruct (snoc_case (pparts t)) as [E|(l' & c & E)].
+  - left. exists []. rewrite E. reflexivity.
+  - right. exists c. rewrite E in *. rewrite removelast_snoc. split; [reflexivity | apply (nodd_last _ _ H)].
 Qed.
 
-Lemma hoare_extract_one : forall eo,
-  entry_ok (fst eo) -> match snd eo with Some o => okp d cwd o | None => True end ->
-  hoare d (extract_one cwd dest eo) (fun _ => True).
+Lemma t_make_dirs : forall ds, Forall (fun o : ppath => nodd (pparts o)) ds ->
+  triple Inv' (make_dirs cwd (Some d) ds) (fun _ => Inv') Inv'.
 Proof.
-  intros [e [o|]] He Ho; simpl in *; [|apply hoare_ret; exact I].
-  eapply hoare_bind.
-  { apply hoare_path_mkdir; auto. apply okg_parent. left. exact Ho. }
-  intros _ _. destruct (e_empty e) eqn:Ee.
-  - apply hoare_touch; auto. apply okp_good_in; auto.
-  - destruct (e_kind e =? 2) eqn:Ek.
-    + destruct (is_path_valid (pjoin (pparent o) (e_data e)) cwd dest); [|apply hoare_raise].
-      eapply hoare_bind; [apply hoare_exists|]. intros ex _.
-      eapply hoare_bind.
-      { instantiate (1 := fun _ => True). destruct ex; [apply hoare_unlink; auto; apply okp_good_in; auto | apply hoare_ret; exact I]. }
-      intros _ _. apply hoare_symlink; auto.
-      * apply He; auto. apply Z.eqb_eq. exact Ek.
-      * apply okp_good_in; auto.
-    + apply hoare_open_wb; auto. apply okp_good_in; auto.
+  induction ds as [|t ds IH]; intros H; simpl.
+  - apply t_ret. auto.
+  - inversion H as [|? ? Ht Hds]; subst.
+    eapply t_bind; [apply t_guard|]. intros u.
+    eapply t_bind; [|intros u2; apply IH; exact Hds].
+    eapply t_weaken with (P := IS' (pparent t)) (Q := fun _ => IS' (pparent t)) (E := IS' (pparent t));
+      [|auto | intros a s [Hi _]; exact Hi | intros s [Hi _]; exact Hi].
+    eapply t_catch; [apply t_path_mkdir; apply good_self_child; exact Ht|].
+    intros x. destruct x; try (apply t_raise; auto).
+    eapply t_bind; [apply t_query; apply q_is_dir|]. intros b. destruct b; [apply t_ret | apply t_raise]; auto.
 Qed.
 
-Lemma hoare_extract_each : forall l,
-  Forall (fun eo => entry_ok (fst eo) /\ match snd eo with Some o => okp d cwd o | None => True end) l ->
-  hoare d (extract_each cwd dest l) (fun _ => True).
+Lemma is_to_inv : forall A X (m : M A), triple (IS' X) m (fun _ => IS' X) (IS' X) ->
+  triple (IS' X) m (fun _ => Inv') Inv'.
+Proof.
+  intros A X m H. eapply t_weaken; [exact H | auto | intros a s [Hi _]; exact Hi | intros s [Hi _]; exact Hi].
+Qed.
+
+Lemma from_is : forall A X (m : M A) (Q : A -> st -> Prop), triple Inv' m Q Inv' -> triple (IS' X) m Q Inv'.
+Proof. intros A X m Q H. eapply t_weaken; [exact H | intros s [Hi _]; exact Hi | auto | auto]. Qed.
+
+Lemma t_extract_one : forall eo, okout (snd eo) -> triple Inv' (extract_one cwd dest (Some d) eo) (fun _ => Inv') Inv'.
+Proof.
+  intros [e [o|]] Ho; simpl in *; [|apply t_ret; auto].
+  set (P := pparent o).
+  assert (HP : nodd (pparts P)) by (simpl; apply nodd_removelast; exact Ho).
+  eapply t_bind; [apply (t_guard d cwd P)|]. intros u.
+  eapply t_bind with (Q := fun _ => IS' P).
+  { eapply t_weaken; [apply (t_path_mkdir d cwd P); apply good_self; exact HP | auto | auto | intros s [Hi _]; exact Hi]. }
+  intros u2. destruct (e_empty e).
+  { apply from_is. eapply t_bind; [apply t_guard | intros u3; apply t_touch]. }
+  destruct (e_kind e =? 2).
+  2:{ apply from_is. eapply t_bind; [apply t_guard | intros u3; apply t_open_wb]. }
+  destruct (is_path_valid (pjoin P (e_data e)) cwd dest); [|apply t_raise; intros s [Hi _]; exact Hi].
+  eapply t_bind; [apply t_query; apply q_exists|]. intros ex.
+  destruct (snoc_case (pparts o)) as [E|(l' & c & E)].
+  - apply from_is. eapply t_bind with (Q := fun _ => Inv').
+    + destruct ex; [apply t_unlink_root; exact E | apply t_ret; auto].
+    + intros u3. apply t_symlink_root. exact E.
+  - assert (Hch : child_of P o c).
+    { split; [reflexivity|]. split; [|rewrite E in Ho; apply (nodd_last _ _ Ho)].
+      unfold P. simpl. rewrite E, removelast_snoc. reflexivity. }
+    eapply t_bind with (Q := fun _ => Pre2 d cwd P).
+    + destruct ex; [apply (t_unlink d cwd P o c Hch) | apply t_ret; intros s [Hi Hs]; split; auto].
+    + intros u3. apply (t_symlink d cwd P o c _ Hch).
+Qed.
+
+Lemma t_extract_each : forall l, Forall (fun eo : entry * option ppath => okout (snd eo)) l ->
+  triple Inv' (extract_each cwd dest (Some d) l) (fun _ => Inv') Inv'.
 Proof.
   induction l as [|eo l IH]; intros H; simpl.
-  - apply hoare_ret. exact I.
-  - inversion H as [|? ? [H1 H2] H3]; subst.
-    eapply hoare_bind; [apply hoare_extract_one; auto | intros _ _; apply IH; auto].
+  - apply t_ret. auto.
+  - inversion H; subst. eapply t_bind; [apply t_extract_one; auto | intros u; apply IH; auto].
 Qed.
 
-Lemma hoare_post_pass : forall l, Forall (fun oe => okp d cwd (fst oe)) l -> hoare d (post_pass cwd l) (fun _ => True).
+Lemma t_post_pass : forall l, Forall (fun oe : ppath * entry => nodd (pparts (fst oe))) l ->
+  triple Inv' (post_pass cwd (Some d) l) (fun _ => Inv') Inv'.
 Proof.
   induction l as [|[o e] l IH]; intros H; simpl.
-  - apply hoare_ret. exact I.
-  - inversion H as [|? ? H1 H2]; subst. simpl in H1.
-    eapply hoare_bind.
-    { instantiate (1 := fun _ => True). destruct (e_mtime e =? 1); [|apply hoare_ret; exact I].
-      apply hoare_touch_meta; auto. apply okp_good_in; auto. }
-    intros _ _. eapply hoare_bind.
-    { instantiate (1 := fun _ => True). destruct (e_chmod e); [|apply hoare_ret; exact I].
-      apply hoare_touch_meta; auto. apply okp_good_in; auto. }
-    intros _ _. apply IH; auto.
+  - apply t_ret. auto.
+  - inversion H; subst.
+    eapply t_bind; [apply t_guard|]. intros u.
+    eapply t_bind with (Q := fun _ => IS' o).
+    { destruct (e_mtime e =? 1); [|apply t_ret; auto].
+      eapply t_weaken; [apply (t_touch_meta d cwd KUtime o) | auto | auto | intros s [Hi _]; exact Hi]. }
+    intros u2. eapply t_bind with (Q := fun _ => IS' o).
+    { destruct (e_chmod e); [|apply t_ret; auto].
+      eapply t_weaken; [apply (t_touch_meta d cwd KChmod o) | auto | auto | intros s [Hi _]; exact Hi]. }
+    intros u3. apply from_is. apply IH. auto.
 Qed.
-
 Lemma forall_insert : forall (P : ppath -> Prop) x l, P x -> Forall P l -> Forall P (insert_sorted x l).
 Proof.
   induction l as [|y l IH]; intros Hx Hl; simpl; [constructor; auto|].
@@ -682,29 +1240,20 @@ Proof.
   apply Forall_app. split; apply forall_filter; auto.
 Qed.
 
-Hypothesis Hdest : match dest with Some p0 => okp d cwd p0 | None => True end.
-
-Lemma hoare_prepare : hoare d (prepare_dest cwd dest) (fun _ => True).
+(* the body of _extract once the real place of the destination has been taken *)
+Lemma t_body : forall es mode,
+  triple Inv' (let* r := register cwd dest es [] (mkR [] [] []) in
+               let* _ := make_dirs cwd (Some d) (sort_paths (rev (r_dirs r))) in
+               let* _ := extract_each cwd dest (Some d) (worker_order mode (rev (r_out r))) in
+               post_pass cwd (Some d) (rev (r_files r))) (fun _ => Inv') Inv'.
 Proof.
-  unfold prepare_dest. destruct dest as [p0|]; [|apply hoare_ret; exact I].
-  eapply hoare_bind; [apply hoare_exists|]. intros ex _. destruct ex; [apply hoare_ret; exact I|].
-  apply hoare_catch; [apply hoare_path_mkdir; auto; left; auto|].
-  intros x. destruct x; try apply hoare_raise.
-  eapply hoare_bind; [apply hoare_is_dir|]. intros b _. destruct b; [apply hoare_ret; exact I | apply hoare_raise].
-Qed.
-
-Lemma hoare_extract : forall es mode,
-  Forall N (outnames es []) -> Forall entry_ok es ->
-  hoare d (extract cwd dest es mode) (fun _ => True).
-Proof.
-  intros es mode HN He. unfold extract.
-  eapply hoare_bind; [apply hoare_prepare|]. intros _ _.
-  eapply hoare_bind.
-  { apply hoare_register; auto. split; [|split]; constructor. }
-  intros r [R1 [R2 R3]].
-  eapply hoare_bind; [apply hoare_make_dirs; apply forall_sort; apply Forall_rev; exact R3|]. intros _ _.
-  eapply hoare_bind; [apply hoare_extract_each; apply forall_order; apply Forall_rev; exact R1|]. intros _ _.
-  apply hoare_post_pass. apply Forall_rev. exact R2.
+  intros es mode. eapply t_bind; [apply t_register; split; [|split]; constructor|].
+  intros r s [Hi (R1 & R2 & R3)]. revert s Hi. change (triple Inv' (let* _ := make_dirs cwd (Some d) (sort_paths (rev (r_dirs r))) in
+               let* _ := extract_each cwd dest (Some d) (worker_order mode (rev (r_out r))) in
+               post_pass cwd (Some d) (rev (r_files r))) (fun _ => Inv') Inv').
+  eapply t_bind; [apply t_make_dirs; apply forall_sort; apply Forall_rev; exact R3|]. intros u.
+  eapply t_bind; [apply t_extract_each; apply forall_order; apply Forall_rev; exact R1|]. intros u2.
+  apply t_post_pass. apply Forall_rev. exact R2.
 Qed.
 
 End Program.
@@ -712,63 +1261,81 @@ End Program.
 (* ------------------------------------------------------------------ the theorems *)
 Definition final_state {A} (o : out A) : st := match o with Ret _ s => s | Exc _ s => s end.
 
-(* the destination as given (absolute canonical path / path relative to cwd / None = cwd) and the real
-   directory d it denotes *)
-Definition dest_ok (cwd : rpath) (dest : option ppath) (d : rpath) : Prop :=
-  match dest with
-  | Some p0 => (proot p0 = 1 /\ d = pparts p0) \/ (proot p0 = 0 /\ d = cwd ++ pparts p0)
-  | None => d = cwd
-  end.
-
-Theorem extract_confined_general : forall f cwd dest es mode d,
-  dest_ok cwd dest d -> nodd d -> real_dir f d -> links_safe f d ->
-  Forall entry_ok es ->
-  Inv d (final_state (extract_fs f cwd dest es mode)).
+Lemma wf_real_dir : forall f d, wf f -> lookup f d = Some Dir -> real_dir f d.
 Proof.
-  intros f cwd dest es mode d Hdest Hd Hr Hl He.
-  assert (H : hoare d (extract cwd dest es mode) (fun _ => True)).
-  { apply hoare_extract with (N := fun _ => True); auto.
-    - (* the sanitiser *)
-      intros nm o HN Hs. destruct dest as [p0|]; unfold sanitize_base in Hs; simpl in Hdest.
-      + assert (Hb : exists b, (if p_is_abs p0 then p0 else pjoinp (mkP 1 cwd) p0) = b /\ proot b = 1 /\ pparts b = d).
-        { destruct Hdest as [[H1 H2]|[H1 H2]]; unfold p_is_abs, pjoinp; rewrite H1; simpl.
-          - exists p0. auto.
-          - unfold p_is_abs. rewrite H1. simpl. eexists; split; [reflexivity|]. simpl. auto. }
-        destruct Hb as [b [Eb [Hb1 Hb2]]]. rewrite Eb in Hs.
-        assert (Hbn : nodd (pparts b)) by (rewrite Hb2; exact Hd).
-        destruct (sanitize_ok nm cwd b o Hb1 Hbn Hs) as [Ho1 [Ho2 [r Ho3]]]. split; [exact Ho2|]. right.
-        exists d, r. unfold start, p_is_abs. rewrite Ho1. simpl. rewrite <- Hb2. auto.
-      + simpl in Hdest. subst d. destruct (sanitize_none_ok nm cwd o Hd Hs) as [N1 N2].
-        split; [exact N2|]. left. unfold p_is_abs. rewrite N1. auto.
-    - (* the destination itself *)
-      destruct dest as [p0|]; [|exact I]. simpl in Hdest. destruct Hdest as [[H1 H2]|[H1 H2]].
-      + split; [rewrite <- H2; exact Hd|]. right. exists d, []. unfold start, p_is_abs. rewrite H1. simpl.
-        rewrite app_nil_r. auto.
-      + split; [rewrite H2 in Hd; apply nodd_app in Hd; apply Hd|]. right. exists (pparts p0), [].
-        unfold start, p_is_abs. rewrite H1. simpl. rewrite app_nil_r. auto.
-    - clear. induction (outnames es []); constructor; auto. }
-  specialize (H (mkSt f [])). unfold extract_fs.
-  assert (I0 : Inv d (mkSt f [])) by (split; [|split]; simpl; auto; constructor).
-  specialize (H I0). destruct (extract cwd dest es mode (mkSt f [])); simpl; [apply H | exact H].
+  intros f d Hwf Hd a b Hab. subst d. revert Hd. induction b as [|c b IH] using rev_ind; intros Hd.
+  - rewrite app_nil_r in Hd. exact Hd.
+  - apply IH. rewrite app_assoc in Hd. apply (Hwf _ c). rewrite Hd. discriminate.
 Qed.
 
-(* the statement asked for: no symbolic-link member, no link below the destination *)
-Theorem extract_confined_nolinks : forall f cwd p0 es mode d,
-  dest_ok cwd (Some p0) d -> nodd d -> real_dir f d -> no_links_under f d ->
-  Forall (fun e => e_kind e <> 2) es ->
-  effs_under d (s_eff (final_state (extract_fs f cwd (Some p0) es mode))).
+(* every filesystem in which the destination (any form: absolute, relative, reached through links, None = the current
+   directory) resolves to a directory d; every archive; completed or raised: the effects lie at or below d, and d is
+   still that directory afterwards *)
+Theorem extract_confined_all : forall f cwd dest es mode d,
+  wf f -> lookup f cwd = Some Dir -> nodd cwd -> dest_rooted cwd dest ->
+  resolve f cwd true (dest_path cwd dest) = RFound d Dir ->
+  Inv d cwd (final_state (extract_fs f cwd dest es mode)).
 Proof.
-  intros f cwd p0 es mode d Hdest Hd Hr Hl He.
-  apply (extract_confined_general f cwd (Some p0) es mode d); auto.
-  - apply no_links_safe; exact Hl.
-  - clear -He. induction He; constructor; auto. intros Hk. contradiction.
+  intros f cwd dest es mode d Hwf Hcwd Hn Hroot Hres.
+  destruct (resolve_walk cwd f true (dest_path cwd dest)) as [l W]. rewrite Hres in W.
+  assert (Hd : lookup f d = Some Dir).
+  { refine (walk_sound f Hwf _ _ _ _ _ _ _ _ W). unfold start. destruct (p_is_abs (dest_path cwd dest)); auto. }
+  assert (I0 : Inv d cwd (mkSt f [])).
+  { split; [exact Hwf|]. split; [apply wf_real_dir; auto|]. split; [exact Hcwd | constructor]. }
+  assert (Hroot' : py_realpath f cwd (dest_path cwd dest) = Some d).
+  { apply (py_of_walk f cwd _ _ _ _ l d) in W; auto. unfold real_fuel. lia. }
+  unfold extract_fs, extract, extract_gen.
+  assert (Hprep : prepare_dest cwd dest (mkSt f []) = Ret tt (mkSt f [])).
+  { unfold prepare_dest. destruct dest as [p0|]; [|reflexivity]. unfold dest_path in Hres.
+    Transparent path_exists. unfold mbind, path_exists, res_of, mbind, ret. simpl. rewrite Hres. reflexivity. }
+  unfold mbind at 1. rewrite Hprep.
+  unfold mbind at 1. unfold mbind at 1. unfold real_root. simpl s_fs. rewrite Hroot'. unfold ret at 1.
+  pose proof (t_body d cwd dest (fun nm o => sanitize_nodd nm cwd dest o Hn Hroot) es mode (mkSt f []) I0) as T.
+  match goal with |- Inv d cwd (final_state ?X) => destruct X end; simpl; exact T.
+Qed.
+
+(* the statement of the property *)
+Corollary extract_effects_inside : forall f cwd dest es mode d,
+  wf f -> lookup f cwd = Some Dir -> nodd cwd -> dest_rooted cwd dest ->
+  resolve f cwd true (dest_path cwd dest) = RFound d Dir ->
+  effs_under d (s_eff (final_state (extract_fs f cwd dest es mode))).
+Proof. intros. apply (extract_confined_all f cwd dest es mode d); auto. Qed.
+
+(* a rooted text keeps its root under canonical_path *)
+Lemma canon_go_bottom : forall ps st, exists rest, canon_go (st ++ [[SLASH]]) ps = [SLASH] :: rest.
+Proof.
+  induction ps as [|p ps IH]; intros st.
+  - simpl. rewrite rev_app_distr. simpl. eexists; reflexivity.
+  - simpl. destruct (st ++ [[SLASH]]) as [|top st'] eqn:E; [destruct st; discriminate|].
+    destruct (negb (is_dotdot p)); [rewrite <- E; apply (IH (p :: st))|].
+    destruct (is_dotdot top); [rewrite <- E; apply (IH (p :: st))|].
+    destruct (str_eqb top [SLASH]) eqn:Et; [rewrite <- E; apply IH|].
+    destruct st as [|x st]; simpl in E; inversion E; subst.
+    + rewrite str_eqb_refl in Et. discriminate.
+    + apply IH.
+Qed.
+
+Lemma canon_root_kept : forall X, proot X = 1 -> proot (canonical_path X) = 1.
+Proof.
+  intros [r ps] H. simpl in H. subst r. unfold canonical_path, items, root_item. simpl.
+  destruct (canon_go_bottom ps []) as [rest E]. simpl in E.
+  assert (G : forall l : list str, l = [SLASH] :: rest -> proot (of_items l) = 1) by (intros l Hl; subst l; reflexivity).
+  apply G. exact E.
+Qed.
+
+Lemma rooted_not_two : forall cwd dest, match dest with Some p => proot p = 0 \/ proot p = 1 | None => True end ->
+  dest_rooted cwd dest.
+Proof.
+  intros cwd [p|] H; unfold dest_rooted, sanitize_base; [|exact I].
+  assert (E : proot (if p_is_abs p then p else pjoinp (mkP 1 cwd) p) = 1).
+  { unfold p_is_abs, pjoinp, p_is_abs. destruct H as [H|H]; rewrite H; simpl; auto. }
+  rewrite (canon_root_kept _ E). discriminate.
 Qed.
 
 (* booleans for concrete states *)
 Definition effs_underb (d : rpath) (l : list effect) : bool := forallb (fun e => prefixb d (snd e)) l.
 Lemma effs_underb_iff : forall d l, effs_underb d l = true <-> effs_under d l.
 Proof. intros. unfold effs_underb, effs_under. rewrite forallb_forall, Forall_forall. reflexivity. Qed.
-
 Definition noddb (l : list str) : bool := forallb (fun c => negb (is_dotdot c)) l.
 Lemma noddb_ok : forall l, noddb l = true -> nodd l.
 Proof.
@@ -782,43 +1349,19 @@ Proof.
   destruct (rpath_eqb a q) eqn:E; [apply rpath_eqb_eq in E; inversion H; subst; left; reflexivity|].
   right. apply IH. exact H.
 Qed.
-Definition links_safeb (f : fs) (d : rpath) : bool :=
-  forallb (fun qn => match snd qn with
-                     | Link t => negb (prefixb d (fst qn)) || ((proot t =? 0) && noddb (pparts t))
-                     | _ => true end) f.
-Lemma links_safeb_ok : forall f d, links_safeb f d = true -> links_safe f d.
+
+Definition wfb (f : fs) : bool :=
+  forallb (fun qn => match lookup f (removelast (fst qn)) with Some Dir => true | _ => false end) f.
+Lemma wfb_ok : forall f, wfb f = true -> wf f.
 Proof.
-  intros f d H q t Hu Hl. destruct q as [|c q]; [discriminate|]. unfold lookup in Hl.
-  apply lookup_raw_in in Hl. unfold links_safeb in H. rewrite forallb_forall in H.
-  apply H in Hl. simpl in Hl. apply prefixb_under in Hu. rewrite Hu in Hl. simpl in Hl.
-  apply andb_true_iff in Hl as [H1 H2]. split; [apply Z.eqb_eq; exact H1 | apply noddb_ok; exact H2].
-Qed.
-Definition nolinksb (f : fs) (d : rpath) : bool :=
-  forallb (fun qn => match snd qn with Link _ => negb (prefixb d (fst qn)) | _ => true end) f.
-Lemma nolinksb_ok : forall f d, nolinksb f d = true -> no_links_under f d.
-Proof.
-  intros f d H q t Hu Hl. destruct q as [|c q]; [discriminate|]. unfold lookup in Hl.
-  apply lookup_raw_in in Hl. unfold nolinksb in H. rewrite forallb_forall in H.
-  apply H in Hl. simpl in Hl. apply prefixb_under in Hu. rewrite Hu in Hl. discriminate.
+  intros f H q c Hk. destruct (lookup f (q ++ [c])) as [n|] eqn:E; [|contradiction].
+  assert (E' : lookup_raw f (q ++ [c]) = Some n) by (destruct (q ++ [c]) eqn:Eq; [destruct q; discriminate | exact E]).
+  apply lookup_raw_in in E'. unfold wfb in H. rewrite forallb_forall in H. apply H in E'.
+  cbn [fst] in E'. rewrite removelast_snoc in E'.
+  destruct (lookup f q) as [[| |]|]; try discriminate. reflexivity.
 Qed.
 
-Definition real_dirb (f : fs) (d : rpath) : bool :=
-  forallb (fun k => match lookup f (firstn k d) with Some Dir => true | _ => false end) (seq 0 (S (length d))).
-Lemma real_dirb_ok : forall f d, real_dirb f d = true -> real_dir f d.
-Proof.
-  intros f d H a b Hab. unfold real_dirb in H. rewrite forallb_forall in H.
-  assert (Hin : In (length a) (seq 0 (S (length d)))).
-  { apply in_seq. subst d. rewrite app_length. simpl. split; [apply Nat.le_0_l|]. apply Nat.lt_succ_r. apply Nat.le_add_r. }
-  apply H in Hin. subst d. rewrite firstn_app, Nat.sub_diag, firstn_all in Hin. simpl in Hin. rewrite app_nil_r in Hin.
-  destruct (lookup f a) as [[| |]|]; try discriminate. reflexivity.
-Qed.
-
-(* ---- the full statement is false of the faithful model: the checks are lexical, the kernel follows links *)
-Definition extract_confined_statement : Prop :=
-  forall f cwd dest es mode d,
-    dest_ok cwd dest d -> nodd d -> real_dir f d -> no_links_under f d ->
-    effs_under d (s_eff (final_state (extract_fs f cwd dest es mode))).
-
+(* ------------------------------------------------------------------ witnesses *)
 Definition w_jail : str := [106; 97; 105; 108].
 Definition w_dest : str := [100; 101; 115; 116].
 Definition w_out : str := [111; 117; 116].
@@ -833,41 +1376,65 @@ Definition w_chain : list entry :=
 Definition w_absname : list entry := [w_file ([46; 47; 47] ++ w_jail ++ [47] ++ w_out ++ [47; 120])].
 (* file "../zz/../dest/x", destination None *)
 Definition w_climb : list entry := [w_file ([46; 46; 47; 122; 122; 47; 46; 46; 47] ++ w_dest ++ [47; 120])].
+(* link "A" -> "B/..", link "B" -> ".", file "A/x": A is created while B is missing *)
+Definition w_order : list entry :=
+  [w_link [65] [66; 47; 46; 46]; w_link [66] [46]; w_file [65; 47; 120]].
+(* a populated destination: a directory, links that were there before (to a directory outside, to a file outside, to a
+   directory inside), and a second way to the destination through the link /jail/dl *)
+Definition y_fs : fs :=
+  [([w_jail], Dir); ([w_jail; w_dest], Dir); ([w_jail; w_out], Dir); ([w_jail; w_out; [102]], File [79]);
+   ([w_jail; w_dest; [97]], Dir); ([w_jail; w_dest; [108; 111]], Link (mkP 0 [[46; 46]; w_out]));
+   ([w_jail; w_dest; [108; 102]], Link (mkP 1 [w_jail; w_out; [102]]));
+   ([w_jail; w_dest; [108; 105]], Link (mkP 0 [[97]]));
+   ([w_jail; [100; 108]], Link (mkP 0 [w_dest]))].
+Definition y_dest : ppath := mkP 1 [w_jail; [100; 108]].
+(* file "li/f", directory "n", link "k" -> "li", file "k/g", file "a/f" twice, empty file "e" *)
+Definition y_es : list entry :=
+  [w_file [108; 105; 47; 102]; mkE [110] 1 [] true 1 true; w_link [107] [108; 105]; w_file [107; 47; 103];
+   w_file [97; 47; 102]; w_file [97; 47; 102]; mkE [101] 0 [] true 1 true].
+(* file "lo/x" (through the old link to /jail/out) *)
+Definition y_out : list entry := [w_file [108; 111; 47; 120]].
+Definition y_outf : list entry := [w_file [108; 102]].
 
-Lemma w_hyps : nodd w_d /\ real_dir w_fs w_d /\ no_links_under w_fs w_d.
+Lemma w_hyps : wf w_fs /\ lookup w_fs [w_jail] = Some Dir /\ nodd [w_jail] /\ nodd w_d /\
+  resolve w_fs [w_jail] true (mkP 1 w_d) = RFound w_d Dir /\ resolve w_fs w_d true (mkP 1 w_d) = RFound w_d Dir.
 Proof.
-  split; [apply noddb_ok; reflexivity|]. split; [apply real_dirb_ok; reflexivity | apply nolinksb_ok; reflexivity].
+  split; [apply wfb_ok; reflexivity|]. split; [reflexivity|]. split; [apply noddb_ok; reflexivity|].
+  split; [apply noddb_ok; reflexivity|]. split; reflexivity.
 Qed.
 
-(* destination given as an absolute path: two links that each pass is_path_valid, then a file through them *)
-Theorem extract_confined_chain_refuted :
-  dest_ok [w_jail] (Some (mkP 1 w_d)) w_d /\ nodd w_d /\ real_dir w_fs w_d /\ no_links_under w_fs w_d /\
-  extract_fs w_fs [w_jail] (Some (mkP 1 w_d)) w_chain 0 =
+(* regression witness: the code before the real-path checks (root = None) escaped through a chain of links that each pass
+   the lexical is_path_valid: x is created, re-timed and re-moded in the parent of the destination *)
+Example chain_unrepaired_escapes :
+  extract_fs_unrepaired w_fs [w_jail] (Some (mkP 1 w_d)) w_chain 0 =
     Ret tt (mkSt [([w_jail; [120]], File [68]);
                   ([w_jail; w_dest; [109]], Link (mkP 0 [[46; 46]]));
                   ([w_jail; w_dest; [108]], Link (mkP 0 []));
                   ([w_jail], Dir); ([w_jail; w_dest], Dir); ([w_jail; w_out], Dir)]
                  [(KChmod, [w_jail; [120]]); (KUtime, [w_jail; [120]]); (KCreate, [w_jail; [120]]);
                   (KSymlink, [w_jail; w_dest; [109]]); (KSymlink, [w_jail; w_dest; [108]])]) /\
-  ~ effs_under w_d (s_eff (final_state (extract_fs w_fs [w_jail] (Some (mkP 1 w_d)) w_chain 0))).
-Proof.
-  destruct w_hyps as [H1 [H2 H3]]. repeat split; auto.
-  - left. split; reflexivity.
-  - intro H. apply effs_underb_iff in H. vm_compute in H. discriminate.
-Qed.
+  effs_underb w_d (s_eff (final_state (extract_fs_unrepaired w_fs [w_jail] (Some (mkP 1 w_d)) w_chain 0))) = false /\
+  effs_underb w_d (s_eff (final_state (extract_fs_unrepaired w_fs w_d None w_chain 0))) = false /\
+  effs_underb w_d (s_eff (final_state (extract_fs_unrepaired w_fs [w_jail] (Some (mkP 1 w_d)) w_order 0))) = false.
+Proof. repeat split; vm_compute; reflexivity. Qed.
 
-(* destination None (the current directory): no hypothesis on the names is needed any more -- the sanitiser
-   returns the checked path, relative and free of ".." *)
-Theorem extract_confined_none : forall f cwd es mode,
-  nodd cwd -> real_dir f cwd -> links_safe f cwd -> Forall entry_ok es ->
-  effs_under cwd (s_eff (final_state (extract_fs f cwd None es mode))).
-Proof.
-  intros f cwd es mode Hd Hr Hl He.
-  apply (extract_confined_general f cwd None es mode cwd); auto. reflexivity.
-Qed.
+(* the same archives with the checks: the two links are made, the member named through them is refused *)
+Example chain_repaired_refused :
+  extract_fs w_fs [w_jail] (Some (mkP 1 w_d)) w_chain 0 =
+    Exc XBad7z (mkSt [([w_jail; w_dest; [109]], Link (mkP 0 [[46; 46]]));
+                      ([w_jail; w_dest; [108]], Link (mkP 0 []));
+                      ([w_jail], Dir); ([w_jail; w_dest], Dir); ([w_jail; w_out], Dir)]
+                     [(KSymlink, [w_jail; w_dest; [109]]); (KSymlink, [w_jail; w_dest; [108]])]) /\
+  s_eff (final_state (extract_fs w_fs w_d None w_chain 0)) =
+    [(KSymlink, [w_jail; w_dest; [109]]); (KSymlink, [w_jail; w_dest; [108]])] /\
+  extract_fs w_fs [w_jail] (Some (mkP 1 w_d)) w_order 0 =
+    Exc XBad7z (mkSt [([w_jail; w_dest; [66]], Link (mkP 0 []));
+                      ([w_jail; w_dest; [65]], Link (mkP 0 [[66]; [46; 46]]));
+                      ([w_jail], Dir); ([w_jail; w_dest], Dir); ([w_jail; w_out], Dir)]
+                     [(KSymlink, [w_jail; w_dest; [66]]); (KSymlink, [w_jail; w_dest; [65]])]).
+Proof. repeat split; vm_compute; reflexivity. Qed.
 
-(* the former witnesses: ".//jail/out/x" is refused before anything is written, "../zz/../dest/x" is written
-   as "x" without creating the detour *)
+(* the former witnesses of the destination None *)
 Example none_absolute_name_refused : extract_fs w_fs w_d None w_absname 0 = Exc XBad7z (mkSt w_fs []).
 Proof. vm_compute. reflexivity. Qed.
 
@@ -877,23 +1444,30 @@ Example none_climb_confined :
     [(KChmod, [w_jail; w_dest; [120]]); (KUtime, [w_jail; w_dest; [120]]); (KCreate, [w_jail; w_dest; [120]])].
 Proof. split; vm_compute; reflexivity. Qed.
 
-(* the chain escapes without a destination as well, now that link members are extracted there *)
-Theorem extract_confined_chain_none_refuted :
-  dest_ok w_d None w_d /\ nodd w_d /\ real_dir w_fs w_d /\ no_links_under w_fs w_d /\
-  In (KCreate, [w_jail; [120]]) (s_eff (final_state (extract_fs w_fs w_d None w_chain 0))) /\
-  ~ effs_under w_d (s_eff (final_state (extract_fs w_fs w_d None w_chain 0))).
+(* the hypotheses of extract_confined_all are met by a populated destination reached through a link, holding links that
+   lead out of it; an archive with files, a directory, duplicate names, a link member and a member named through it has
+   19 effects there; members named through the old links that lead out are refused (the unrepaired code wrote /jail/out/x and
+   truncated /jail/out/f) *)
+Example all_hyps_satisfiable :
+  wf y_fs /\ lookup y_fs [w_jail] = Some Dir /\ nodd [w_jail] /\ dest_rooted [w_jail] (Some y_dest) /\
+  resolve y_fs [w_jail] true (dest_path [w_jail] (Some y_dest)) = RFound w_d Dir /\
+  (exists s, extract_fs y_fs [w_jail] (Some y_dest) y_es 0 = Ret tt s /\ length (s_eff s) = 19%nat) /\
+  extract_fs y_fs [w_jail] (Some y_dest) y_out 0 = Exc XBad7z (mkSt y_fs []) /\
+  extract_fs y_fs [w_jail] (Some y_dest) y_outf 0 = Exc XBad7z (mkSt y_fs []) /\
+  effs_underb w_d (s_eff (final_state (extract_fs_unrepaired y_fs [w_jail] (Some y_dest) y_out 0))) = false /\
+  effs_underb w_d (s_eff (final_state (extract_fs_unrepaired y_fs [w_jail] (Some y_dest) y_outf 0))) = false.
 Proof.
-  destruct w_hyps as [H1 [H2 H3]]. repeat split; auto.
-  - vm_compute. auto 10.
-  - intro H. apply effs_underb_iff in H. vm_compute in H. discriminate.
+  split; [apply wfb_ok; reflexivity|]. split; [reflexivity|]. split; [apply noddb_ok; reflexivity|].
+  split; [apply rooted_not_two; right; reflexivity|]. split; [reflexivity|].
+  split; [eexists; split; vm_compute; reflexivity|]. repeat split; vm_compute; reflexivity.
 Qed.
 
-Theorem extract_confined_refuted : ~ extract_confined_statement.
-Proof.
-  intro H. destruct extract_confined_chain_refuted as [H0 [H1 [H2 [H3 [_ H4]]]]].
-  apply H4. apply H; auto.
-Qed.
-
+(* realpath and the kernel on a loop: the kernel gives up (ELOOP), realpath hands the text back *)
+Example loop_example :
+  let f := [([w_jail], Dir); ([w_jail; [115]], Link (mkP 0 [[115]]))] in
+  resolve f [w_jail] true (mkP 0 [[115]; [120]]) = RErr XLoop /\
+  py_realpath f [w_jail] (mkP 0 [[115]; [120]]) = Some [w_jail; [115]; [120]].
+Proof. split; vm_compute; reflexivity. Qed.
 (* the sanitiser with a destination: accepted names are lexically below it (whatever the destination) *)
 Theorem sanitized_lexically_inside : forall nm cwd0 b o,
   get_sanitized_output_path nm cwd0 (Some b) = Some o ->
@@ -919,38 +1493,3 @@ Qed.
 Theorem sanitized_none_inside : forall nm cwd0 o, nodd cwd0 ->
   get_sanitized_output_path nm cwd0 None = Some o -> proot o = 0 /\ nodd (pparts o).
 Proof. exact sanitize_none_ok. Qed.
-
-(* hypotheses of the general theorem are met by a populated destination holding a link, and an archive
-   with files, a directory, duplicate names and a (safe) link member; 13 effects take place *)
-Definition x_fs : fs :=
-  [([w_jail], Dir); ([w_jail; w_dest], Dir); ([w_jail; w_dest; [97]], Dir); ([w_jail; w_dest; [97]; [98]], File [111]);
-   ([w_jail; w_dest; [115]], Link (mkP 0 [[97]])); ([w_jail; w_out], Link (mkP 1 [])) ].
-Definition x_es : list entry :=
-  [w_file [97; 47; 102]; mkE [98] 1 [] true 1 true; w_link [107] [97]; w_file [115; 47; 103]; w_file [97; 47; 102];
-   mkE [46; 46; 47; 120] 0 [] true 1 true].
-Example general_hyps_satisfiable :
-  dest_ok [w_jail] (Some (mkP 0 [w_dest])) w_d /\ nodd w_d /\ real_dir x_fs w_d /\ links_safe x_fs w_d /\
-  Forall entry_ok (firstn 5 x_es) /\
-  length (s_eff (final_state (extract_fs x_fs [w_jail] (Some (mkP 0 [w_dest])) (firstn 5 x_es) 0))) = 13%nat /\
-  (* a refused name aborts before anything is written *)
-  extract_fs x_fs [w_jail] (Some (mkP 0 [w_dest])) x_es 0 = Exc XBad7z (mkSt x_fs []).
-Proof.
-  split; [right; split; reflexivity|]. split; [apply noddb_ok; reflexivity|].
-  split; [apply real_dirb_ok; reflexivity|]. split; [apply links_safeb_ok; reflexivity|].
-  split.
-  { repeat (apply Forall_cons || apply Forall_nil); intros Hk He; try discriminate.
-    split; [reflexivity | apply noddb_ok; reflexivity]. }
-  split; vm_compute; reflexivity.
-Qed.
-
-Example none_hyps_satisfiable :
-  dest_ok w_d None w_d /\ nodd w_d /\ real_dir w_fs w_d /\ links_safe w_fs w_d /\
-  Forall entry_ok [w_file [97; 47; 102]; w_link [107] [97]; w_file [107; 47; 103]; w_file [97; 47; 102]] /\
-  length (s_eff (final_state (extract_fs w_fs w_d None [w_file [97; 47; 102]; w_link [107] [97]; w_file [107; 47; 103]; w_file [97; 47; 102]] 0))) = 11%nat.
-Proof.
-  split; [reflexivity|]. split; [apply noddb_ok; reflexivity|]. split; [apply real_dirb_ok; reflexivity|].
-  split; [apply links_safeb_ok; reflexivity|]. split.
-  - repeat (apply Forall_cons || apply Forall_nil); intros Hk He; try discriminate.
-    split; [reflexivity | apply noddb_ok; reflexivity].
-  - vm_compute. reflexivity.
-Qed.
